@@ -12,1123 +12,2881 @@ Definition show_fres (r : fres) : string :=
   end.
 Definition check (rs : list rune) : string := digest (show_fres (format_res rs)).
 Definition full (rs : list rune) : string := show_fres (format_res rs).
-Eval vm_compute in ("<<<M2072>>>" ++ check (runes_of_ascii "packet len {
-    @calculatedFrom(""`tick`"")
-    repeat zchar[00] chars `a\`,
-    u8x MetaDataX `line1
-    line2`,
-    @calculatedFrom(""a\""b"")
-    match matchKey as asx {
-        [""CRC32"", ""a\""b""] : msg_type,
-    },
-    i8 string_ @calculatedFrom(""{,}""),
-    @lengthOf(lengthOf)
-    zchar[42] _x `line1
-    line2`,
-    @lengthOf(asx)
-    repeat int8 Header,
-    repeat crc {
-        int8 i64_ @calculatedFrom(""{,}""),
-    },
-    repeat _x i8i8 `line1
-    line2`,
-    float64 stringy,
-    MetaDataX {
-        charz {
-            int16 matchKey,
-            repeat i64_,
-            char[00] Z9_ `
-            `,
-            match As as Packet {
-                3 : crc,
-                [1, 00] : Header,
-                255 : _x,
-                42 : body,
-                [0] : chars,
-                [4294967296, 65535] : chars,
-            },
-        },
-    },
-}
+Eval vm_compute in ("<<<M3692>>>" ++ check (runes_of_ascii "
 
-MetaData falsey {
-    char[255] u128,
-    u8 Header `tab	here`,
-    string float,
-}
+  // top
+    options// c0a
+// c0b
+{
+        // c1
+      ArrayPrefixLenType
+    =  // c3
+	u64 
+// c4
+; FixedStringPadFromLeft// c6
 
-root packet int {
-    Logon i64_,
-    @calculatedFrom(""1"")
-    zchar {
-        u {
-            zchar[255] Pad,
-        },
-        stringy {
-            Pad metadata `u8 x,`,
-        },
-        repeat string i8i8,
-        char[] As @calculatedFrom(""\n""),
-    },
-    @lengthOf(packetx)
-    @lengthOf(i64_)
-    body `line1
-    line2`,
-    @lengthOf(roots)
-    match MetaDataX as uint8x {
-        // `tick` ""quote"" 'q'
-        [007, 255, 00] : body,
-        [
-            65535, ""1"", 1, ""\n"", 1,
-            ""CRC32"", 0
-        ] : trueish,
-    },
-    uint64 Foo,
-    zchar {
-        metadata @lengthOf(Pad) `crlf
-        line`,
-        match u as charz {
-            65535 : int,
-            [""1""] : a1,
-            [4294967296, 00, """ ++ [233]%N ++ runes_of_ascii "t" ++ [233]%N ++ runes_of_ascii """, """ ++ [28040; 24687]%N ++ runes_of_ascii """, 00] : matchKey,
-            [""a\\""] : Logon,
-        },
-        repeat rootA {
-            int16 Foo @lengthOf(rootA),
-            options1 `u8 x,`,
-        },
-    },
-    match chars as u {
-        [
-            ""it's"", 007, """ ++ [233]%N ++ runes_of_ascii "t" ++ [233]%N ++ runes_of_ascii """, ""abc"", ""\n"",
-            """"
-        ] : repeatCount,
-        65535 : Z9_,
-        [007, ""abc"", ""// no comment"", """ ++ [28040; 24687]%N ++ runes_of_ascii """] : falsey,
-        00 : string_,
-    },
-    char repeatCount,
-}
+  = // c7a
+	  // c7b
+	false 	 // c8a
+	  // c8b
+    ;// c9a
+// c9b
+    	} 	 // c10
+      packet	// c11
+Trade // c12a
+	// c12b
+		{ 
+}  // c14a
+  	// c14b
+  packet Reject 
+	    // c16
+	  { // c17a
+  // c17b
+  	InPx94 {
 
-packet Foo {
-    char[] a1 @calculatedFrom("""") `line1
-    line2`,
-    uint16 MetaDataX `say ""hi""`,
-    char[] A,
-    // trailing space 
-    // " ++ [128512]%N ++ runes_of_ascii " emoji
-    f64 int @lengthOf(Pad),
-    u32 BodyLength,
-    float64 trueish @lengthOf(lengthOf) `crlf
-    line`,
-    @tag(255)
-    match Z9_ as tag {
-        [""a\""b"", 4294967296, ""{,}"", ""{,}""] : Pad,
-        1 : lengthOf,
-        0123456789 : msg_type,
-        ""// no comment"" : BodyLength,
-        [""1""] : string_,
-        [
-            3, 0, 1, 1, ""\" ++ [233]%N ++ runes_of_ascii """,
-            """", 00
-        ] : asx,
-    },
-    body `say ""hi""`,
-}
+// c19
+repeat 
+// c20
 
-options {
-    x = '0';
-    u8x = u64;
-    // c
-    //	t
-    string_ = ""a\""b""
-}")).
-Eval vm_compute in ("<<<M352>>>" ++ check (runes_of_ascii "MetaData	matchKey
-{ float64	string_, string pack`doc`	,Foo float `` ,x chars
-    `crlf
-line`
-    ,
-} packet Header { float64 lengthOf //x
-@lengthOf(
-    calculatedFrom ) `crlf
-line` , zchar[1 ]
-int @lengthOf( int),u8  string_,
-//x
-// c
-@tag(3 // packet A { u8 x, }
-) @tag( 10 // c
-)
-i64_
-    // " ++ [128512]%N ++ runes_of_ascii " emoji
-    {repeat	i16 body
-    //x
-    `crlf
-line` , f64 repeatCount @lengthOf( x_y_z )
-    , x{ char[ 0 ]// a // b
-int , }
-, match u128
-    as
-    MetaDataX { [ 007 ,
-    //x
-    ""// no comment"" ] : string_,
-// a // b
-// trailing space 
-0 : int,  [  42 , ""`tick`"" , 0123456789
-, ""\" ++ [233]%N ++ runes_of_ascii """  , ""1"", ""packet"" , 255
-, ""{,}"" ]:	crc ,
-0123456789  :	rootA [ ""\n"" ] :
-    // packet A { u8 x, }
-    charz , [ ""packet"", 10 ]
-:T , }
-, }//
-, // packet A { u8 x, }
-repeat
-zchar[ 007  ]matchKey `crlf
-line` ,
-    @rightPad // `tick` ""quote"" 'q'
-(
-    '0' )
-    // `tick` ""quote"" 'q'
-    repeat char[ 00	]
-pack`{ , }` , // " ++ [27880; 37322]%N ++ runes_of_ascii "
-i8i8
-, f32a
-    { u128
-    packetx , MetaDataX msg_type ,
-char[ 65535] falsey `" ++ [28040; 24687; 31867; 22411]%N ++ runes_of_ascii "`
-, }
-    , } packet uint8x { uint32 msg_type`u8 x,` , char[ 65535 ] // c
-o // trailing space 
-`u8 x,` , @rightPad
-( '\x00' )
-int @lengthOf( int )`crlf
-line` ,}packet Logon{ char[] string_ ,
-    string repeatCount// trailing space 
-@lengthOf( _x
-)
-    // packet A { u8 x, }
-    ,  @calculatedFrom( ""\" ++ [233]%N ++ runes_of_ascii """ )@lengthOf( trueish) @tag(
-//
-// `tick` ""quote"" 'q'
-007 ) i8
-    a1
-@lengthOf(
-BodyLength
-) `it's` ,	@rightPad ( ' ') @calculatedFrom(
-    ""{,}"" // c
-) @lengthOf(
-    // `tick` ""quote"" 'q'
-    zchar
-// c
-//	t
-) repeat
-    _x {
-    len
-, repeat	uint16
-    /// triple
-    trueish `say ""hi""` , u16 roots `two words` ,},} // `tick` ""quote"" 'q'")).
-Eval vm_compute in ("<<<M281>>>" ++ check (runes_of_ascii "
-packet leftPad { // packet A { u8 x, }
-@leftPad ( ' '
-)
-repeat
-    x
-`" ++ [233]%N ++ runes_of_ascii "` ,
-repeat
-    pack ,
-// a // b
-// a // b
-uint32  A , // @lengthOf(
-@tag(10  )@leftPad
-    ( )
-    @calculatedFrom( ""a	b"" ) u32 stringy @lengthOf( lengthOf ) , Foo`line1
-line2` , crc `u8 x,`  ,// @lengthOf(
-} options {//
-x = float64
-    // trailing space 
-    ; u8x = //x
-""" ++ [128512]%N ++ runes_of_ascii """ ; pack =
-// `tick` ""quote"" 'q'
-// trailing space 
-' ';
-    // c
-    falsey
-= ""a\""b"" } packet As
-{repeat repeatCount u8x `doc`
-    // packet A { u8 x, }
-    , @leftPad ( '0' ) @calculatedFrom(""\" ++ [233]%N ++ runes_of_ascii """
-    )match asx
-as crc//x
-{ 4294967296
-    //	t
-    :
-    u8x
-    , ""\n"" :u128
-    , 0:asx
-    [
-    255
-    // trailing space 
-    ,""x y""	] :
-    Logon ,0123456789 : A , 255	:i64_ , }
-,
-    metadata @lengthOf( u8x
-)  , repeat crc
-{	uint32
-Packet	, } /// triple
-, @calculatedFrom(""" ++ [128512]%N ++ runes_of_ascii """ )T u128  `{ , }` ,repeat i32	msg_type , @lengthOf(// packet A { u8 x, }
-T	)int	,float {
-// @lengthOf(
-// `tick` ""quote"" 'q'
-match trueish	as leftPad
-    /// triple
+Trade
+
+    // c21
+      ,
+	    // c22
+	string
+	count ,  // c25a
+	// c25b
+  InFlags14  // c26a
+    // c26b
     {
-[ 0  ,	""" ++ [28040; 24687]%N ++ runes_of_ascii """  ]:
-f32a, }  , uint32 i8i8,Packet{	char[ 65535 ] o
-    // trailing space 
-    @calculatedFrom( ""it's""  ) , }, // a // b
-} , uint8 i8i8 `say ""hi""`, } /// triple
-packet
-BodyLength{ }
-")).
-Eval vm_compute in ("<<<M2078>>>" ++ check (runes_of_ascii "options {
-    LittleEndian = true;
-    StringPrefixLenType = u16;
-    ArrayPrefixLenType = u8;
-    FixedStringPadChar = '0';
-}
-
-packet Logout {
-    repeat i16 f1,
-    string Ref,
-    @rightPad('\x00')
-    char[9] Tail,
-    repeat char[6] Flags,
-    repeat char[3] Acct,
-}
-
-packet Party {
-    char[2] f1,
-    u8 Side2,
-    @leftPad(' ')
-    char[1] venue,
-}
-
-packet Order {
-    repeat i64 Ref,
-    InPx62 {
-        i32 OrderId,
-    },
-    InNote53 {
-        InClordid80 {
-            char[] Acct,
-            u32 Px,
-            repeat Party,
-        },
-        InPrice12 {
-            u8 pad0,
-        },
-        repeat Logout,
-        InFlags23 {
-            repeat string seqNo,
-            string sym,
-            int8 Flags,
-            zchar[5] lastPx,
-            zchar[6] Px,
-        },
-        char[10] Acct,
-        InPx18 {
-            zchar[2] count,
-            Party,
-        },
-    },
-    char[5] Side2,
-    char[1] Acct,
-}
-
-root packet Ack {
-    u32 Tail,
-    repeat char[4] msgKind,
-    repeat Logout,
-}")).
-Eval vm_compute in ("<<<M163>>>" ++ check (runes_of_ascii "packet
-    // `tick` ""quote"" 'q'
-    u8x {} packet calculatedFrom
-    {
-    i8i8
-len
-,
-    match lengthOf as leftPad
-{ 007
-    : crc
-, ""abc"": o 10 : falsey
-    } , repeat  i8
-metadata  , @calculatedFrom(""" ++ [28040; 24687]%N ++ runes_of_ascii """ ) repeat int16
-leftPad
-    // trailing space 
-    ``
-    ,BodyLength
-    @calculatedFrom(  ""a\\""
-    ) ,
-char[] f32a,
-    tag// packet A { u8 x, }
-rootA
-, @rightPad (
-    // " ++ [27880; 37322]%N ++ runes_of_ascii "
-    ' ' ) @tag( 007 ) match o as
-    // " ++ [27880; 37322]%N ++ runes_of_ascii "
-    _x { [ 1
-    // " ++ [27880; 37322]%N ++ runes_of_ascii "
-    ,
-""a	b""
-, ""1"" ,
-00 ,7
-// " ++ [128512]%N ++ runes_of_ascii " emoji
-//x
-,""" ++ [233]%N ++ runes_of_ascii "t" ++ [233]%N ++ runes_of_ascii """
-    ,
-    // c
-    7 ,00
-    ]
-    : Foo ,
-    // " ++ [27880; 37322]%N ++ runes_of_ascii "
-    ""\" ++ [233]%N ++ runes_of_ascii """// @lengthOf(
-:  matchKey
-    ,},//x
-@rightPad (	'\x00' )string msg_type	, }
-packet  trueish {u8x
-``
-, @lengthOf( Header
-    )
-    repeat int64 int	`` ,
-} MetaData matchKey	{ string msg_type	, zchar[
-    //	t
-    4294967296
-]
-repeatCount `it's`
-, u8
-crc
-, zchar
-o ,int64 asx
-, }root
-packet chars{
-    }
-")).
-Eval vm_compute in ("<<<M1552>>>" ++ check (runes_of_ascii "options
-    { LittleEndian	= false
-	;
-    StringPrefixLenType	=u8;
-
-ArrayPrefixLenType
-	=
 
 u8
-	;FixedStringPadFromLeft =true
-    ; FixedStringPadChar =
 
-' '
-;}packet
-Trade { zchar[ 2
-] Side2
+pad0 
+
+    // c29
+    ,// c30
+  }
+
+,  
+      // c32
+	repeat  InSide239
+    {  // c35a
+// c35b
+
+	char[ 
+8
+// c37
+
+	]	// c38a
+	// c38b
+		lastPx // c39
+	  ,	// c40a
+		// c40b
+repeat // c41
+
+i64  // c42a
+	  // c42b
+    	clOrdID 	 // c43
+  , 	 // c44
+i64// c45
+Acct, // c47
+    } // c48a
+
+// c48b
+
+  ,
+
+// c49
+    	} // c50
+  ,
+	    // c51
+	  repeat 
+    // c52
+string
+
+    clOrdID  // c54a
+// c54b
+		,	// c55
+
+	zchar[ 	 // c56a
+    // c56b
+  5]  sym// c59
 ,
-i8  seqNo ,
-
-    }  packet Party
-
-{uint32
-price,
-    } packet  Ack
-	{ @rightPad
-    ( '\x00'
-)char[6 
-] x
-
-,
-	repeat
-    char[  4 
-]
-Flags , zchar[
-9
-] 
-f1 , } packet
-    Cancel
-    { Ack
-
-, }
-    packet Heartbeat
-
-    {
-    string
-    Px ,
-string Acct
+    }// c61a
+// c61b
+	packet  Quote 
+    // c63
+	{
+repeat Reject	// c66a
+  // c66b
 , 
-f64
-    Side2
-, 
-InQty24{  i16
 
-    seqNo , repeat 
-i32
-	Flags  , 
-}
-    ,
-}
-    root
+// c67
+	}  // c68a
 
-packet
-	Logon 
+// c68b
+
+	packet
+
+    // c69
+
+	Logon  // c70a
+
+	// c70b
 {
+repeat	// c72a
+    // c72b
 
-    Trade
-,  i64 venue
-, u32
-x,
+Reject// c73
+    ,
 
-    u8  seqNo
-	, match seqNo as
-    Body	{
-[1,164
-]
-: 
-Ack  ,	31 :
-	Cancel	, 23 : Heartbeat	,
-64: 
-Party,
-	} , }")).
-Eval vm_compute in ("<<<M1541>>>" ++ check (runes_of_ascii "// top
+    char[] // c75a
+    	// c75b
+  Acct 
+	    // c76
+	, // c77a
+	// c77b
+@leftPad
+(	// c79a
+// c79b
+
+'0' 
+  // c80
+	)  
+  // c81
+	char[ 
+
+// c82
+	4 
+  // c83
+  	] 
+tag7// c85a
+  // c85b
+,
+    // c86
+		}	// c87a
+// c87b
+    root  // c88
+  	packet Fill// c90a
+    // c90b
+	{
+	// c91
+
+@rightPad	( // c93a
+	// c93b
+	'0' // c94
+    ) 	 // c95
+    char[	// c96
+
+1 ]// c98a
+      // c98b
+
+  count 	 // c99
+  , 
+u8 	 // c101
+    f1 	 // c102a
+      // c102b
+    , 
+        // c103
+  u32 Qty  // c105a
+
+	// c105b
+      @lengthOf( // c106a
+      // c106b
+	  Body// c107
+	) 
+    // c108
+  , 	 // c109
+	  match// c110
+
+f1	// c111
+	as
+	    // c112
+  Body 
+    // c113
+		{
+    // c114
+  	[ 	 // c115a
+      // c115b
+
+195 	 // c116a
+  // c116b
+,// c117a
+  // c117b
+	3 
+    // c118
+  ] // c119
+  : 	 // c120
+	Reject 
+
+// c121
+,
+
+    110
+    :  Quote 	 // c125a
+		// c125b
+	, 
+// c126
+
+141	// c127a
+// c127b
+	  :	Logon 
+// c129
+	,  // c130
+21 // c131a
+  // c131b
+	:
+// c132
+  Trade ,
+    // c134
+  } 	 // c135a
+
+// c135b
+		, 
+	// c136
+    u32  // c137a
+    // c137b
+Flags// c138
+  	@calculatedFrom( ""CRC32""  // c140
+    )// c141
+	, 	 // c142a
+// c142b
+	}")).
+Eval vm_compute in ("<<<M3706>>>" ++ check (runes_of_ascii "packet MetaDataX {
+    @lengthOf(chars)
+    zchar[10] int,
+    i8i8 @calculatedFrom(""\" ++ [233]%N ++ runes_of_ascii """),
+    @rightPad('\x00')
+    repeat char[4294967296] falsey `doc`,
+}
+
+packet msg_type {
+    // `tick` ""quote"" 'q'
+    //x
+}
+
+root packet trueish {
+    zchar `" ++ [233]%N ++ runes_of_ascii "`,
+    @lengthOf(msg_type)
+    match Logon as zchar {
+        [""" ++ [233]%N ++ runes_of_ascii "t" ++ [233]%N ++ runes_of_ascii """] : options1,
+    },
+    u32 Logon,
+    uint16 chars `line1
+        line2`,
+    A @calculatedFrom(""a\\""),// @lengthOf(
+    @leftPad()
+    @tag(00)
+    repeat char[] trueish,
+}
+
+root packet metadata {
+    lengthOf ``,
+    @calculatedFrom(""\" ++ [233]%N ++ runes_of_ascii """)
+    As o,
+    repeat crc,
+    @leftPad('\x00')
+    MetaDataX {
+        match chars as _x {
+            00 : Pad,
+            [""it's""] : Logon,
+            255 : x,
+            [""" ++ [28040; 24687]%N ++ runes_of_ascii """, 0, 007, """ ++ [128512]%N ++ runes_of_ascii """] : metadata,
+            [""" ++ [28040; 24687]%N ++ runes_of_ascii """, ""`tick`"", """ ++ [233]%N ++ runes_of_ascii "t" ++ [233]%N ++ runes_of_ascii """, 10, 10] : T,
+        },
+        BodyLength @calculatedFrom(""// no comment""),
+        tag {
+            charz packetx `{ , }`,
+            match x as repeatCount {
+                ""\" ++ [233]%N ++ runes_of_ascii """ : matchKey,
+                ""it's"" : string_,
+                ""it's"" : Logon,
+                [""// no comment"", """ ++ [128512]%N ++ runes_of_ascii """, 7] : pack,
+                [1, """"] : MetaDataX,
+                3 : Z9_,
+                // " ++ [128512]%N ++ runes_of_ascii " emoji
+            },
+            int8 trueish @calculatedFrom(""\" ++ [233]%N ++ runes_of_ascii """) `" ++ [28040; 24687; 31867; 22411]%N ++ runes_of_ascii "`,
+        },
+    },
+    char[] pack,
+    int64 len,
+    _x @lengthOf(trueish) `// not a comment`,
+    zchar @calculatedFrom(""{,}""),
+}
+
+root packet charz {
+    int8 body `// not a comment`,
+    @lengthOf(metadata)
+    @calculatedFrom(""it's"")
+    @calculatedFrom(""1"")
+    int32 Foo @lengthOf(string_),
+    // 50% %s
+    //x
+    @tag(0)
+    char[] x_y_z,// a // b
+    char trueish @lengthOf(chars),
+    x_y_z @lengthOf(options1) `// not a comment`,
+    @lengthOf(charz)
+    // `tick` ""quote"" 'q'
+    f32 a1 @lengthOf(MetaDataX) `// not a comment`,
+    string_,
+    @lengthOf(body)
+    @tag(65535)
+    @calculatedFrom(""// no comment"")
+    T x_y_z,
+    string Z9_ `" ++ [233]%N ++ runes_of_ascii "`,
+}")).
+Eval vm_compute in ("<<<M3457>>>" ++ check (runes_of_ascii "// top
 options // c0a
   // c0b
 { // c1
-StringPrefixLenType // c2
-= u16 // c4
-; FixedStringPadChar // c6
-= // c7
-' '
-    // c8
-; // c9a
-  // c9b
-} packet
-    // c11
-Party
+StringPrefixLenType = // c3a
+  // c3b
+u64
+    // c4
+; // c5a
+  // c5b
+ArrayPrefixLenType // c6a
+  // c6b
+= // c7a
+  // c7b
+u16 // c8a
+  // c8b
+;
+    // c9
+} // c10a
+  // c10b
+packet // c11
+Heartbeat
     // c12
-{ } packet // c15a
-  // c15b
-Quote // c16a
-  // c16b
-{ // c17
-repeat
-    // c18
-Party , // c20
-repeat // c21a
-  // c21b
-char[ // c22a
-  // c22b
-2
-    // c23
-] // c24
-f1 , // c26
-} packet // c28
-Logon // c29a
-  // c29b
 {
+    // c13
+uint32
+    // c14
+Side2 // c15
+, // c16
+u8 OrderId // c18
+, string
+    // c20
+Tail , // c22
+InPx95 { char[ // c25a
+  // c25b
+3
+    // c26
+]
+    // c27
+Note
+    // c28
+,
+    // c29
+char[ 2 ]
+    // c32
+count
+    // c33
+, repeat InOrderid76 // c36
+{
+    // c37
+char[ // c38
+12 // c39
+] f1 , } , uint8 // c45a
+  // c45b
+lastPx , // c47a
+  // c47b
+char[] // c48a
+  // c48b
+seqNo // c49a
+  // c49b
+, } // c51a
+  // c51b
+, // c52
+}
+    // c53
+packet Leg // c55a
+  // c55b
+{ zchar[
+    // c57
+5 // c58
+] // c59
+tag7
+    // c60
+, // c61a
+  // c61b
+Heartbeat // c62a
+  // c62b
+,
+    // c63
+}
+    // c64
+root packet // c66a
+  // c66b
+Reject // c67
+{
+    // c68
+u8 Ref
+    // c70
+,
+    // c71
+uint8
+    // c72
+Flags // c73a
+  // c73b
+, // c74
+repeat // c75a
+  // c75b
+Leg // c76a
+  // c76b
+, // c77a
+  // c77b
+zchar[ // c78a
+  // c78b
+1 // c79
+]
+    // c80
+venue // c81a
+  // c81b
+,
+    // c82
+zchar[
+    // c83
+9 ] // c85a
+  // c85b
+clOrdID // c86a
+  // c86b
+,
+    // c87
+u8 Tail // c89
+, // c90
+u32 // c91
+price @lengthOf( // c93a
+  // c93b
+Body
+    // c94
+) // c95
+, // c96a
+  // c96b
+match Tail
+    // c98
+as Body // c100a
+  // c100b
+{ // c101a
+  // c101b
+84 // c102
+: Heartbeat , // c105a
+  // c105b
+6
+    // c106
+:
+    // c107
+Leg // c108a
+  // c108b
+,
+    // c109
+} , u32 // c112a
+  // c112b
+Note @calculatedFrom( // c114
+""CRC32"" // c115
+) // c116a
+  // c116b
+, // c117
+} // c118
+")).
+Eval vm_compute in ("<<<M477>>>" ++ check (runes_of_ascii "packet tag {
+    @tag(
+65535
+) calculatedFrom @calculatedFrom( ""abc"" )`crlf
+line`,
+@calculatedFrom(""\n"" )_x @calculatedFrom( ""CRC32"" )
+,
+u16  body @calculatedFrom(
+""\" ++ [233]%N ++ runes_of_ascii """
+    // c
+    ) ,
+zchar[ 0
+// `tick` ""quote"" 'q'
+// c
+] Header
+@calculatedFrom(  """ ++ [128512]%N ++ runes_of_ascii """// 50% %s
+) `// not a comment`
+    // a // b
+    , repeat lengthOf ,	repeat char[] uint8x `line1
+line2`
+    //
+    , @tag(4294967296)match lengthOf as crc{[
+0
+] :Logon """ ++ [128512]%N ++ runes_of_ascii """ :
+//	t
+//x
+Foo , // " ++ [27880; 37322]%N ++ runes_of_ascii "
+""packet"" :
+    calculatedFrom, }, int64 leftPad , }packet x { match
+roots
+as u8x{
+65535: trueish, ""a	b""
+: zchar
+    ,
+255	: Logon ,1 : string_ ,
+    } , repeat i8i8  { string Logon
+,
+    metadata , repeat T	, }
+    , repeat //
+Header`" ++ [233]%N ++ runes_of_ascii "` , metadata trueish `{ , }`
+// packet A { u8 x, }
+// a // b
+,
+    leftPad _x `it's` , @tag( 7
+    )// packet A { u8 x, }
+char[] Packet @lengthOf( //x
+leftPad )
+`" ++ [233]%N ++ runes_of_ascii "`  , match Logon
+as options1 { [ ""abc"" // 50% %s
+] : pack
+""" ++ [233]%N ++ runes_of_ascii "t" ++ [233]%N ++ runes_of_ascii """
+// `tick` ""quote"" 'q'
+// c
+:metadata
+    ,
+    ""a\\"" :
+    _x , } , } packet
+string_
+{Pad  @calculatedFrom( """"
+    ) `tab	here`, @lengthOf( u  ) len  @calculatedFrom(
+//x
+//x
+""// no comment"" )
+`{ , }`  ,
+@leftPad/// triple
+( '0' )
+    tag
+@lengthOf( calculatedFrom )
+,
+    repeat uint64 metadata `u8 x,`
+    // " ++ [128512]%N ++ runes_of_ascii " emoji
+    , } root packet
+T // trailing space 
+{ @rightPad
+// " ++ [27880; 37322]%N ++ runes_of_ascii "
+//
+(  ' ' )
+    repeat float chars , repeat
+char[] //
+options1, }
+")).
+Eval vm_compute in ("<<<M4378>>>" ++ check (runes_of_ascii "  root
+
+packet 
+u8x	{ 
+match
+
+packetx  // " ++ [27880; 37322]%N ++ runes_of_ascii "
+      as
+	Z9_
+	{[  ""it's"" 
+// " ++ [27880; 37322]%N ++ runes_of_ascii "
+	,
+""{,}""
+	]
+
+    : _x// 50% %s
+    } ,
+
+@calculatedFrom(	""\" ++ [233]%N ++ runes_of_ascii """ )
+    /// triple
+      // " ++ [27880; 37322]%N ++ runes_of_ascii "
+
+  char[ 10 ]
+
+    leftPad
+
+    `doc`
+
+    ,uint16
+metadata
+	`{ , }` , a1
+
+@calculatedFrom( """ ++ [233]%N ++ runes_of_ascii "t" ++ [233]%N ++ runes_of_ascii """ )
+, 
+@leftPad (' ' )
+	repeat  // trailing space 
+
+pack  { char[]  chars
+        //x
+
+	`" ++ [233]%N ++ runes_of_ascii "`
+
+    , },
+	}
+
+packet	msg_type
+	{  repeat char[ 10  ] 
+	    // trailing space 
+
+  //
+    Z9_
+    `a\`,
+
+    @lengthOf( As
+
+    )match
+    i64_ as
+	msg_type{
+    4294967296
+:
+
+Header 
+    /// triple
+, 
+65535 :
+options1  , 
+
+//
+	//x
+  	""1"" : 
+f32a
+    , 
+0123456789
+    :	x_y_z ,
+
+65535  :Foo ,
+} , 	 /// triple
+	repeat tag	`" ++ [28040; 24687; 31867; 22411]%N ++ runes_of_ascii "`
+, 
+        // @lengthOf(
+float32
+
+body
+
+    @lengthOf(
+BodyLength  )  `it's`  ,f64	uint8x ,	@lengthOf(asx
+)
+@rightPad(  '0'  )@calculatedFrom(	""// no comment""  ) i8  options1@lengthOf(
+
+charz) , 	 // trailing space 
+	zchar[	10]  a1 // c
+@calculatedFrom( ""a\""b"" ) , 
+repeat i8i8 
+{
+	msg_type 
+{char[
+255 	 //x
+]	T
+
+,
+repeat i8  len`" ++ [233]%N ++ runes_of_ascii "` ,
+
+i64
+	matchKey  @lengthOf(
+    // @lengthOf(
+	// " ++ [27880; 37322]%N ++ runes_of_ascii "
+
+tag// 50% %s
+  )
+
+    ,
+	repeat
+char[  10  ]	// " ++ [128512]%N ++ runes_of_ascii " emoji
+len
+	`tab	here` ,}, }	// `tick` ""quote"" 'q'
+
+	, }//
+	  root  packet Header 
+{
+    }
+
+")).
+Eval vm_compute in ("<<<M1166>>>" ++ check (runes_of_ascii "  MetaData asx	{	char[
+1]
+    a1  ,
+zchar[
+0	]  msg_type //x
+`it's`
+    ,
+    } packet a1
+// packet A { u8 x, }
+/// triple
+{ @lengthOf(
+options1) charz
+{repeat matchKey  { i32 Logon `doc`  , string
+options1
+,falsey ,
+    match
+u128 as u{42: calculatedFrom // " ++ [27880; 37322]%N ++ runes_of_ascii "
+, [ """"
+, 0
+    // `tick` ""quote"" 'q'
+    , ""x y""
+, //x
+""1"" ,  4294967296 ]
+/// triple
+// trailing space 
+: f32a
+    , 0123456789
+: metadata , }
+,
+    }
+    // 50% %s
+    , float32 /// triple
+matchKey
+@lengthOf(tag	)`it's`
+,  }
+    , @lengthOf( T ) @lengthOf(
+    // c
+    pack ) @lengthOf( options1
+    ) match u8x
+    // trailing space 
+    as Packet
+    {4294967296:BodyLength,} ,i8 metadata @lengthOf( msg_type	) `" ++ [233]%N ++ runes_of_ascii "`	, char[] lengthOf ,
+string float ,
+    x @calculatedFrom( ""\n""//x
+) `
+`  ,	rootA // a // b
+{
+    // a // b
+    repeat i64_
+    x_y_z	`{ , }`
+    ,repeat uint8 packetx , },  @tag( 10 )@lengthOf( u128) match leftPad as MetaDataX
+    // a // b
+    { [
+""a	b"", 0123456789 , ""x y""] :lengthOf ,
+    """" :
+u // @lengthOf(
+3: lengthOf
+    ,255 :// a // b
+u8x ""packet"" :  metadata
+/// triple
+// " ++ [128512]%N ++ runes_of_ascii " emoji
+,	""a\\""
+:stringy } , @tag(1 ) @tag(
+    3	) @leftPad ( ' '// c
+)char[]
+x, }")).
+Eval vm_compute in ("<<<M4285>>>" ++ check (runes_of_ascii "
+packet 
+roots
+	{ 	 // packet A { u8 x, }
+  	@leftPad 
+(	) calculatedFrom
+`line1
+line2`	//x
+  	,
+
+@calculatedFrom( ""// no comment""//	t
+	)match 
+i8i8
+    as
+x
+    // trailing space 
+    {
+
+    00 : chars ,  ""// no comment"" 
+:
+A 	 /// triple
+	,
+
+    [
+
+    00	,
+""it's""  ]	: roots ,
+    0
+:
+
+A
+	""`tick`""	// c
+  :	charz ,	""\" ++ [233]%N ++ runes_of_ascii """	:
+
+    repeatCount
+	,
+},
+    @lengthOf(
+    a1
+
+)
+	u16  i8i8 , @calculatedFrom(
+    ""a	b""
+	)repeat
+
+    options1
+{
+	uint32 BodyLength	@calculatedFrom(
+
+    ""a\\""
+) 
+`
+`
+// @lengthOf(
+  ,
+    match
+
+options1 as // " ++ [27880; 37322]%N ++ runes_of_ascii "
+charz{
+/// triple
+    007 : 
+x_y_z 
+,  // " ++ [128512]%N ++ runes_of_ascii " emoji
+7 
+:
+
+    T ,  // packet A { u8 x, }
+    [
+
+    ""CRC32""
+
+    , 
+""{,}"" ] :	u8x
+[00 ,
+""CRC32""
+	, ""// no comment"",
+4294967296
+
+, ""`tick`"",	42
+
+,
+0123456789]:  falsey,
+
+    42
+
+    : 
+pack 
+,
+    ""`tick`"" :
+    As,}
+
+    ,
+    } ,@lengthOf( 
+rootA	)
+repeatCount
+    {
+    f32
+i64_`tab	here`
+    ,}
+	, 
+@leftPad
+
+    ( 	 // " ++ [27880; 37322]%N ++ runes_of_ascii "
+  '0'
+)  @tag( 
+255 )
+repeat
+packetx, falsey`" ++ [233]%N ++ runes_of_ascii "` 	 // `tick` ""quote"" 'q'
+
+  ,//	t
+  options1 leftPad ,
+	repeat string_  roots
+
+    `" ++ [233]%N ++ runes_of_ascii "`	, } ")).
+Eval vm_compute in ("<<<M116>>>" ++ check (runes_of_ascii "options
+{ u // packet A { u8 x, }
+=// 50% %s
+int32 packetx	= ""`tick`"" ;
+    matchKey= // trailing space 
+'0'As = 3
+// packet A { u8 x, }
+//x
+; Packet=true; } root packet
+tag { // @lengthOf(
+u64 stringy , repeat options1
+{ zchar[ 4294967296
+] f32a `` , match tag as
+    //
+    options1 {
+    10 : A
+// c
+// c
+,  007
+    : Pad , 0123456789
+    : calculatedFrom 7 :	stringy ,
+[ // 50% %s
+""a\""b"" ,// " ++ [27880; 37322]%N ++ runes_of_ascii "
+0123456789 ] : options1 , 3
+:
+u8x,
+    // packet A { u8 x, }
+    } ,} ,
+    }packet len {	@calculatedFrom(
+// packet A { u8 x, }
+// `tick` ""quote"" 'q'
+""" ++ [233]%N ++ runes_of_ascii "t" ++ [233]%N ++ runes_of_ascii """ )i8
+// `tick` ""quote"" 'q'
+//	t
+repeatCount @lengthOf(
+// `tick` ""quote"" 'q'
+// " ++ [128512]%N ++ runes_of_ascii " emoji
+roots ) ,
+int32 i64_//
+@calculatedFrom( ""`tick`"" )  ,
+    @rightPad ( ' ' ) repeat
+char[] u8x// " ++ [128512]%N ++ runes_of_ascii " emoji
+,	@rightPad('\x00'	) leftPad{ match lengthOf // c
+as charz { ""1"" :tag  ""// no comment""	:
+x, [
+    """ ++ [233]%N ++ runes_of_ascii "t" ++ [233]%N ++ runes_of_ascii """ ,""CRC32"" ] :	pack 3: charz ,
+}, } , } options
+    {
+}
+    MetaData
+matchKey {uint64 repeatCount,  roots
+x_y_z
+`say ""hi""`
+, roots As , A crc , uint64 f32a // @lengthOf(
+, }
+")).
+Eval vm_compute in ("<<<M3473>>>" ++ check (runes_of_ascii "options { LittleEndian // c2a
+  // c2b
+=
+    // c3
+false
+    // c4
+; // c5
+StringPrefixLenType = // c7a
+  // c7b
+u16 ; // c9a
+  // c9b
+ArrayPrefixLenType // c10a
+  // c10b
+=
+    // c11
+u32 // c12
+; // c13a
+  // c13b
+FixedStringPadChar = // c15a
+  // c15b
+'0' // c16a
+  // c16b
+; // c17a
+  // c17b
+} // c18
+packet Leg
+    // c20
+{ // c21a
+  // c21b
+char[] OrderId // c23
+,
+    // c24
+repeat // c25
+InFlags49 { float32 // c28
+Tail // c29a
+  // c29b
+,
     // c30
 }
     // c31
-root
-    // c32
-packet // c33
-Cancel // c34
-{ // c35a
-  // c35b
-uint16
-    // c36
-x , // c38a
-  // c38b
-zchar[
-    // c39
-6 // c40a
-  // c40b
-] // c41a
-  // c41b
-f1 // c42a
-  // c42b
-, // c43
-} // c44
-")).
-Eval vm_compute in ("<<<M313>>>" ++ check (runes_of_ascii "root
-packet i8i8
-{ BodyLength `" ++ [28040; 24687; 31867; 22411]%N ++ runes_of_ascii "`, Header , int16 len @lengthOf( msg_type ) `
-` ,@leftPad/// triple
-(' '/// triple
-) @rightPad// " ++ [27880; 37322]%N ++ runes_of_ascii "
-( // a // b
-) // trailing space 
-@calculatedFrom(
-""x y"" ) repeatCount // @lengthOf(
-@calculatedFrom( /// triple
-""packet"")
-    `crlf
-line` , @lengthOf(falsey
-)  roots @lengthOf( metadata
-    )`line1
-line2` ,
-    i8 i64_
-, @tag( 4294967296)@tag( 3 ) repeat	zchar[
-1 ] lengthOf, @lengthOf(	Logon
-// `tick` ""quote"" 'q'
-// `tick` ""quote"" 'q'
-)repeat
-asx{stringy float`line1
-line2` , Pad ,
-}
-    , }
-")).
-Eval vm_compute in ("<<<M366>>>" ++ check (runes_of_ascii "  packet tag  {
-@calculatedFrom(""" ++ [28040; 24687]%N ++ runes_of_ascii """)A
-    `" ++ [233]%N ++ runes_of_ascii "`
-    ,
-    // a // b
-    match u as
-// c
-// trailing space 
-len	{ [42 , """ ++ [233]%N ++ runes_of_ascii "t" ++ [233]%N ++ runes_of_ascii """ ] : As
-42 :
-    string_
-,
-""CRC32"" :
-body , ""x y"":
-    x //
-,  [
-// `tick` ""quote"" 'q'
-// @lengthOf(
-007 , 4294967296 ,""{,}"" ,
-""""
-    , """ ++ [28040; 24687]%N ++ runes_of_ascii """ , ""it's"" , """ ++ [128512]%N ++ runes_of_ascii """
-    ] : u
-    // " ++ [128512]%N ++ runes_of_ascii " emoji
-    ,""" ++ [28040; 24687]%N ++ runes_of_ascii """  : _x,  }
-,@lengthOf(rootA) u128 `doc`
-,// " ++ [27880; 37322]%N ++ runes_of_ascii "
-} options { falsey
-=
-string
-string_=int8 ; } options
-{// c
-charz
-// c
-// trailing space 
-= ""CRC32"" }
-")).
-Eval vm_compute in ("<<<M373>>>" ++ check (runes_of_ascii "options { x =3
-    matchKey= ""a\""b"" // @lengthOf(
-leftPad	= ""packet"" ; T = zchar[ 65535 ]; } MetaData
-    MetaDataX {} MetaData // " ++ [128512]%N ++ runes_of_ascii " emoji
-repeatCount {u8x Pad	, }
-    packet
-T{ @tag( 42  ) repeat MetaDataX `{ , }`
-    // a // b
-    , // @lengthOf(
-float32 x@lengthOf( u8x  )
-`
-`
-    ,int16 matchKey @calculatedFrom( ""\n""	) `two words` , }packet packetx
-{_x
-@calculatedFrom( ""a\""b""
-)`a\`	,
-} // a // b")).
-Eval vm_compute in ("<<<M175>>>" ++ check (runes_of_ascii "packet f32a
-{
-    repeat calculatedFrom u128//	t
-,
-    T @calculatedFrom( ""a\\"" ) `crlf
-line` ,
-string /// triple
-charz, @leftPad (
-    //x
-    ) repeat
-pack // a // b
-T
-    ,	}MetaData
-charz { } packet	i8i8{A
-x ,match A
-as
-leftPad { ""abc""	: msg_type , ""a	b""
-    //	t
-    :
-    T }	,f64 i8i8
-    ,
-char charz`" ++ [233]%N ++ runes_of_ascii "`
-    // `tick` ""quote"" 'q'
-    ,} // " ++ [128512]%N ++ runes_of_ascii " emoji")).
-Eval vm_compute in ("<<<M90>>>" ++ check (runes_of_ascii "packet charz {repeat char[ 3 ]
-BodyLength,As stringy, match
-    tag as uint8x { //
-[ ""it's"" , 007
-    , 4294967296
-    // c
-    ] : uint8x ,
-}, // a // b
-@tag( 0
-)/// triple
-repeat char[	7	] u	,}
-    // packet A { u8 x, }
-    MetaData options1
-    { Z9_  _x ,	} packet BodyLength
-{} MetaData chars { float Foo,
-}")).
-Eval vm_compute in ("<<<M619>>>" ++ check (runes_of_ascii "root packet tag { }  packet MetaDataX{char[007	]
-// c
-/// triple
-asx  @calculatedFrom( ""a\""b""
-) `say ""hi""`// " ++ [27880; 37322]%N ++ runes_of_ascii "
-,  @tag(4294967296 )
-    char[1//x
-] packetx @calculatedFrom(""a\""b""
-    ) ,
-// " ++ [128512]%N ++ runes_of_ascii " emoji
-// a // b
-@calculatedFrom( @calculatedFrom(""" ++ [233]%N ++ runes_of_ascii "t" ++ [233]%N ++ runes_of_ascii """  ) repeat pack // " ++ [27880; 37322]%N ++ runes_of_ascii "
-,
-    } // c")).
-Eval vm_compute in ("<<<M480>>>" ++ check (runes_of_ascii "root root packet tag { }  packet MetaDataX{char[007	]
-// c
-/// triple
-asx  @calculatedFrom( ""a\""b""
-) `say ""hi""`// " ++ [27880; 37322]%N ++ runes_of_ascii "
-,  @tag(4294967296 )
-    char[1//x
-] packetx @calculatedFrom(""a\""b""
-    ) ,
-// " ++ [128512]%N ++ runes_of_ascii " emoji
-// a // b
-@calculatedFrom(""" ++ [233]%N ++ runes_of_ascii "t" ++ [233]%N ++ runes_of_ascii """  ) repeat pack // " ++ [27880; 37322]%N ++ runes_of_ascii "
-,
-    } // c")).
-Eval vm_compute in ("<<<M644>>>" ++ check (runes_of_ascii "root packet tag { }  packet MetaDataX{char[007	]
-// c
-/// triple
-asx  @calculatedFrom( ""a\""b""
-) `say ""hi""`// " ++ [27880; 37322]%N ++ runes_of_ascii "
-,  @tag(4294967296 )
-    char[1//x
-] packetx @calculatedFrom(""a\""b""
-    ) ,
-// " ++ [128512]%N ++ runes_of_ascii " emoji
-// a // b
-@calculatedFrom(""" ++ [233]%N ++ runes_of_ascii "t" ++ [233]%N ++ runes_of_ascii """  ) repeat pack // " ++ [27880; 37322]%N ++ runes_of_ascii "
-, ,
-    } // c")).
-Eval vm_compute in ("<<<M490>>>" ++ check (runes_of_ascii "root packet { tag }  packet MetaDataX{char[007	]
-// c
-/// triple
-asx  @calculatedFrom( ""a\""b""
-) `say ""hi""`// " ++ [27880; 37322]%N ++ runes_of_ascii "
-,  @tag(4294967296 )
-    char[1//x
-] packetx @calculatedFrom(""a\""b""
-    ) ,
-// " ++ [128512]%N ++ runes_of_ascii " emoji
-// a // b
-@calculatedFrom(""" ++ [233]%N ++ runes_of_ascii "t" ++ [233]%N ++ runes_of_ascii """  ) repeat pack // " ++ [27880; 37322]%N ++ runes_of_ascii "
-,
-    } // c")).
-Eval vm_compute in ("<<<M486>>>" ++ check (runes_of_ascii "root int16 tag { }  packet MetaDataX{char[007	]
-// c
-/// triple
-asx  @calculatedFrom( ""a\""b""
-) `say ""hi""`// " ++ [27880; 37322]%N ++ runes_of_ascii "
-,  @tag(4294967296 )
-    char[1//x
-] packetx @calculatedFrom(""a\""b""
-    ) ,
-// " ++ [128512]%N ++ runes_of_ascii " emoji
-// a // b
-@calculatedFrom(""" ++ [233]%N ++ runes_of_ascii "t" ++ [233]%N ++ runes_of_ascii """  ) repeat pack // " ++ [27880; 37322]%N ++ runes_of_ascii "
-,
-    } // c")).
-Eval vm_compute in ("<<<M606>>>" ++ check (runes_of_ascii "root packet tag { }  packet MetaDataX{char[007	]
-// c
-/// triple
-asx  @calculatedFrom( ""a\""b""
-) `say ""hi""`// " ++ [27880; 37322]%N ++ runes_of_ascii "
-,  @tag(4294967296 )
-    char[1//x
-] packetx @calculatedFrom(as
-    ) ,
-// " ++ [128512]%N ++ runes_of_ascii " emoji
-// a // b
-@calculatedFrom(""" ++ [233]%N ++ runes_of_ascii "t" ++ [233]%N ++ runes_of_ascii """  ) repeat pack // " ++ [27880; 37322]%N ++ runes_of_ascii "
-,
-    } // c")).
-Eval vm_compute in ("<<<M75>>>" ++ check (runes_of_ascii "MetaData calculatedFrom { // @lengthOf(
-tag a1
-, uint8 _x`crlf
-line`,
-// " ++ [27880; 37322]%N ++ runes_of_ascii "
-// packet A { u8 x, }
-string
-    Z9_ ,uint8x A`line1
-line2` ,char falsey , packetx Foo
-,  }
-MetaData body {
-string x_y_z``
-    , falsey zchar `line1
-line2` , } options{ }
-")).
-Eval vm_compute in ("<<<M260>>>" ++ check (runes_of_ascii "
+, } root // c34a
+  // c34b
 packet
-crc{ } options
-{ len= '0' } packet uint8x {T  charz `u8 x,` ,
-}
-    MetaData  packetx //	t
-{
-// `tick` ""quote"" 'q'
-// trailing space 
-} options
-    { Header
-    =""CRC32""
-;
-    charz =
-    string MetaDataX
-=
-true ;}
-")).
-Eval vm_compute in ("<<<M1119>>>" ++ check (runes_of_ascii "// top
-packet // c0
-metadata // c1
-{ // c2
-Logon // c3
-{ // c4
-A // c5
-`" ++ [28040; 24687; 31867; 22411]%N ++ runes_of_ascii "` // c6
-, // c7
-tag // c8
-o // c9
-, // c10
-} // c11
-, // c12
-zchar // c13
-len // c14
-`// not a comment` // c15
-, // c16
-} // c17
-")).
-Eval vm_compute in ("<<<M1527>>>" ++ check (runes_of_ascii "packet u128 {
-    u8 a,
-}
-root packet Msg {
-    u8 k,
-    u24 {
-        u8 Hi,
-        u16 Lo,
-    },
-    repeat i24 {
-        u32 q,
-    },
-    u128,
-    u16 float32x,
-    string s,
-}
-")).
-Eval vm_compute in ("<<<M390>>>" ++ check (runes_of_ascii "packet
-    // `tick` ""quote"" 'q'
-    crc crc
-// packet A { u8 x, }
-//	t
-{
-u32 a1 ,
-    // trailing space 
-    roots
-charz //
-`two words`,	}
-    MetaData int {
-} /// triple")).
-Eval vm_compute in ("<<<M679>>>" ++ check (runes_of_ascii "root packet len // trailing space 
-{
-// " ++ [27880; 37322]%N ++ runes_of_ascii "
-//	t
-repeat 10
-] metadata	@lengthOf( o ) `crlf
-line`,
-    @rightPad
-( ' '
-) string
-    Header @calculatedFrom( ""a\\""
-    ), }
-")).
-Eval vm_compute in ("<<<M436>>>" ++ check (runes_of_ascii "packet
-    // `tick` ""quote"" 'q'
-    crc
-// packet A { u8 x, }
-//	t
-{
-u32 a1 ,
-    // trailing space 
-    roots
-charz //
-`two words`,	MetaData
-    } int {
-} /// triple")).
-Eval vm_compute in ("<<<M156>>>" ++ check (runes_of_ascii "packet asx {
-    }
-    // packet A { u8 x, }
-    options
-    { options1
-= float64 leftPad
-=true ; MetaDataX =char[00] ; roots=false }// " ++ [128512]%N ++ runes_of_ascii " emoji
-packet string_{
-    }
-
-")).
-Eval vm_compute in ("<<<M1762>>>" ++ check (runes_of_ascii "
-
-  packet 
-
-// `tick` ""quote"" 'q'
-crc  
-      // packet A { u8 x, }
-
-	//	t
-  {
-
+    // c35
+Heartbeat // c36a
+  // c36b
+{ // c37
+char[]
+    // c38
+Px
+    // c39
+, // c40
+f32 // c41a
+  // c41b
+Side2 , repeat // c44
+Leg // c45
+, char[] // c47a
+  // c47b
+Flags , u32 // c50a
+  // c50b
+Acct // c51
+, // c52a
+  // c52b
 u32
-a1
+    // c53
+seqNo // c54
+@lengthOf( Body // c56
+) , match // c59
+Acct as Body // c62a
+  // c62b
+{ [ // c64a
+  // c64b
+165 // c65
+,
+    // c66
+21 ]
+    // c68
+: // c69
+Leg , // c71a
+  // c71b
+} // c72
+, // c73
+} // c74a
+  // c74b
+")).
+Eval vm_compute in ("<<<M922>>>" ++ check (runes_of_ascii "root packet  uint8x { match
+roots
+    as a1 {
+    ""a\\"" : int } , stringy pack
+    , string_ @lengthOf(
+msg_type ) `100% of %d`, repeat f32 x_y_z // `tick` ""quote"" 'q'
+`it's`
+, zchar[
+7
+    ] lengthOf
+    @lengthOf(int ) , }  options {} packet Logon {
+char[] _x `" ++ [28040; 24687; 31867; 22411]%N ++ runes_of_ascii "` ,
+char[7 ] matchKey ,
+@rightPad (
+    '0' ) char[
+3 ]
+len , Foo
+    //	t
+    @calculatedFrom( ""a	b""),// packet A { u8 x, }
+} // `tick` ""quote"" 'q'
+options { } root packet a1 { uint64 stringy  ,@tag(
+10
+    )
+    match a1 as // 50% %s
+BodyLength{[ 10,	4294967296
+,1 ]	:zchar , }, @rightPad(
+)string string_ @lengthOf(
+    // 50% %s
+    x_y_z ) /// triple
+`two words` , char[] T , @leftPad
+( '0' ) string_{
+/// triple
+//x
+match matchKey as crc { [
+    // " ++ [128512]%N ++ runes_of_ascii " emoji
+    ""\" ++ [233]%N ++ runes_of_ascii """,
+3 , // packet A { u8 x, }
+""x y""  ] :
+calculatedFrom , }
     ,
-	    // trailing space 
+u128 Packet `{ , }` // " ++ [128512]%N ++ runes_of_ascii " emoji
+,float o , Packet@calculatedFrom(
+""{,}""
+//	t
+// a // b
+) ,
+/// triple
+//	t
+}
+, }")).
+Eval vm_compute in ("<<<M565>>>" ++ check (runes_of_ascii "packet
+trueish { repeat matchKey // " ++ [27880; 37322]%N ++ runes_of_ascii "
+As `doc` , @calculatedFrom(""a\""b""	) Packet  Logon, // @lengthOf(
+i16 Z9_ // packet A { u8 x, }
+,  x_y_z { char charz
+@calculatedFrom(
+// @lengthOf(
+//	t
+""""
+)// a // b
+, repeat rootA repeatCount
+    ,
+repeat u128
+    f32a
+    `100% of %d` //	t
+, }	, match
+leftPad
+as // c
+string_ //
+{
+    // " ++ [128512]%N ++ runes_of_ascii " emoji
+    [
+    ""packet"" , ""x y""
+//x
+// packet A { u8 x, }
+,255 , ""abc""
+, 0123456789
+,	255 ,
+7
+] :	a1 ,
+}  , uint64 options1
+    @lengthOf( u8x ) `it's` , @leftPad( '0'// 50% %s
+)repeat
+    Header `say ""hi""` ,
+trueish zchar , @leftPad(
+    // c
+    '\x00'
+    )// " ++ [128512]%N ++ runes_of_ascii " emoji
+A // c
+@lengthOf(	crc	)
+//
+// " ++ [27880; 37322]%N ++ runes_of_ascii "
+, }
+    root
+    packet
+    i64_
+    { i64_
+    // trailing space 
+    `// not a comment`
+,
+string
+    i8i8 @calculatedFrom(
+""\" ++ [233]%N ++ runes_of_ascii """ // a // b
+)`doc` ,
+    }
+    packet Logon//	t
+{ @lengthOf( leftPad )
+u64 u128`" ++ [28040; 24687; 31867; 22411]%N ++ runes_of_ascii "` , }
 
-	roots
-    charz 	 //
+")).
+Eval vm_compute in ("<<<M4200>>>" ++ check (runes_of_ascii "packet T {
+    repeat string options1,
+    @lengthOf(Packet)
+    @calculatedFrom(""" ++ [128512]%N ++ runes_of_ascii """)
+    @lengthOf(repeatCount)
+    u64 asx,
+    @leftPad('\x00')
+    x {
+        // c
+        string a1 `tab	here`,
+        repeat pack Header,
+        match packetx as rootA {
+            3 : chars,
+        },
+    },
+    falsey @lengthOf(matchKey) `line1
+    line2`,
+    @calculatedFrom(""`tick`"")
+    @calculatedFrom(""1"")
+    char[00] u128 @lengthOf(a1),
+    @lengthOf(lengthOf)
+    @rightPad('0')
+    @lengthOf(u128)
+    rootA,
+}
 
-  `two words`
+// " ++ [128512]%N ++ runes_of_ascii " emoji
+//	t
+options {
+}
+
+packet u128 {
+    @tag(3)
+    @tag(255)
+    @lengthOf(_x)
+    char crc `u8 x,`,
+    repeat matchKey repeatCount,
+    repeat T `crlf
+    line`,
+    char[] trueish `
+    `,
+}
+
+options {
+    Packet = true
+    u128 = '0';
+    As = ""// no comment"";
+    o = false
+}
+
+options {
+}
+/// triple")).
+Eval vm_compute in ("<<<M782>>>" ++ check (runes_of_ascii "  packet stringy
+    //	t
+    { @calculatedFrom( ""abc"" ) @calculatedFrom(
+    ""abc""
+    )	repeat char[
+1] charz
+, @lengthOf( float
+    )
+@tag( 00 ) @calculatedFrom(
+""{,}"" ) // `tick` ""quote"" 'q'
+match int as// 50% %s
+body
+{ [ """"
+    ,
+4294967296 , 0
+]
+: float
+// 50% %s
+// packet A { u8 x, }
+, } , }	packet crc { @rightPad ( ' ' ) @calculatedFrom(""" ++ [128512]%N ++ runes_of_ascii """
+    ) @tag(
+// `tick` ""quote"" 'q'
+//	t
+00
+    )
+int16 falsey  `u8 x,` // `tick` ""quote"" 'q'
+, // c
+@leftPad ( '\x00'	)
+string_
+    ,	@lengthOf(
+repeatCount )f64
+f32a
+    // " ++ [128512]%N ++ runes_of_ascii " emoji
+    @lengthOf( u8x)
+    // @lengthOf(
+    , char[] falsey
+, @tag(
+42
+)
+@tag( 10 )zchar[
+//	t
+// " ++ [128512]%N ++ runes_of_ascii " emoji
+255
+    //x
+    ] body
+`
+`
+,
+@tag(65535 ) // " ++ [27880; 37322]%N ++ runes_of_ascii "
+crc @calculatedFrom( ""CRC32"" ),	} options // " ++ [128512]%N ++ runes_of_ascii " emoji
+{  repeatCount = // trailing space 
+'0'	}")).
+Eval vm_compute in ("<<<M1213>>>" ++ check (runes_of_ascii "//	t
+MetaData o /// triple
+{BodyLength // " ++ [128512]%N ++ runes_of_ascii " emoji
+Z9_ , char
+Foo ,zchar[ 1
+]
+u `" ++ [28040; 24687; 31867; 22411]%N ++ runes_of_ascii "` ,
+    char[]  Logon `100% of %d`
+,
+    // " ++ [27880; 37322]%N ++ runes_of_ascii "
+    }
+    /// triple
+    MetaData u { uint32  pack , matchKey
+    calculatedFrom // `tick` ""quote"" 'q'
+`crlf
+line`,
+string
+    roots , char[42
+] calculatedFrom,}
+packet trueish
+    { @lengthOf( u128 ) chars {
+    stringy
+    {repeat Foo{ asx @lengthOf(
+// " ++ [27880; 37322]%N ++ runes_of_ascii "
+//x
+uint8x)// " ++ [128512]%N ++ runes_of_ascii " emoji
+`
+` ,
+    uint64 Header@lengthOf( calculatedFrom)
+    ,uint16 Foo`
+`
+    ,calculatedFrom , } , Pad msg_type
+`{ , }` , repeat zchar[ 4294967296] tag , match stringy as
+    A {
+0123456789 :body
+[
+    //	t
+    ""1"" , """ ++ [28040; 24687]%N ++ runes_of_ascii """ ,
+3
+    ] :stringy ,[	""" ++ [233]%N ++ runes_of_ascii "t" ++ [233]%N ++ runes_of_ascii """ ,""\n""// 50% %s
+]
+    // packet A { u8 x, }
+    : Header	,
+} ,
+},
+    char
+    asx
+,
+} , }")).
+Eval vm_compute in ("<<<M551>>>" ++ check (runes_of_ascii "packet
+    x_y_z {u16 a1 , } MetaData MetaDataX {  char[]
+    uint8x ,int64 zchar ,	charz pack`crlf
+line` , //x
+float32 // trailing space 
+_x
+`// not a comment`
+, lengthOf stringy , } packet pack{ u8 lengthOf @lengthOf( u8x // 50% %s
+) `100% of %d`
+,
+repeat i64 Z9_ , zchar[ // `tick` ""quote"" 'q'
+255] o@calculatedFrom(
+""a	b"" )``, match string_ as a1 { ""CRC32"": A, [ ""1""  , ""{,}""  ] :
+roots [255 , 4294967296 , 42// @lengthOf(
+,
+1 ,
+    255	, ""// no comment"" , 1 ,
+    /// triple
+    ""x y"" //
+]
+    // @lengthOf(
+    :u8x, 007  :
+As ,[""" ++ [28040; 24687]%N ++ runes_of_ascii """ ,	0123456789 ,
+// c
+// 50% %s
+""" ++ [128512]%N ++ runes_of_ascii """ ,""a\\"" , 007 , ""// no comment"" , 10,3
+    ]
+    : u ,1 : zchar ,
+} ,
+    uint8
+packetx `100% of %d` , @rightPad (// " ++ [128512]%N ++ runes_of_ascii " emoji
+) char[
+    1]
+Header ,
+}
+")).
+Eval vm_compute in ("<<<M3690>>>" ++ check (runes_of_ascii "packet leftPad {
+}
+
+options {
+    u8x = false;
+    A = 42;
+    rootA = ""1"";
+}
+
+root packet crc {
+    @leftPad('\x00')
+    @calculatedFrom(""`tick`"")
+    @calculatedFrom(""a	b"")
+    len {
+        repeat Foo {
+            Foo {
+                char[255] string_ @calculatedFrom(""CRC32"") `crlf
+                                line`,
+                char[] chars @lengthOf(_x),
+            },
+            repeat asx `
+                        `,
+        },
+        char[] trueish @lengthOf(i8i8),
+        repeat msg_type `line1
+                line2`,
+        zchar[10] asx,
+    },
+}
+
+packet body {
+}
+
+packet Packet {
+    @lengthOf(zchar)
+    string u8x `two words`,
+    // packet A { u8 x, }
+}// " ++ [27880; 37322]%N)).
+Eval vm_compute in ("<<<M227>>>" ++ check (runes_of_ascii "options // packet A { u8 x, }
+{ MetaDataX
+=
+00
+    // trailing space 
+    ; stringy = ""packet"" Header= char[ 42 ]} packet As  {
+} packet trueish{ BodyLength ,
+    @tag(
+42 )u8 msg_type @calculatedFrom(
+""a\""b"" ) ,
+repeat  u16 u128
+, @calculatedFrom(
+    ""abc"")
+// `tick` ""quote"" 'q'
+// packet A { u8 x, }
+match charz as x_y_z {3	:
+    //	t
+    Z9_, 7: repeatCount [ //x
+1 , ""a\\""// c
+] :
+    i64_
+    , ""it's"":
+    Logon },
+f32 // 50% %s
+int `it's`, @calculatedFrom( ""{,}""
+    )
+falsey @calculatedFrom( ""a\""b"" )
+, @lengthOf(A	)
+    Header
+// 50% %s
+/// triple
+@calculatedFrom( ""packet"" )
+    `tab	here`  ,char[3 // trailing space 
+] zchar@lengthOf( rootA ) , }
+
+")).
+Eval vm_compute in ("<<<M3285>>>" ++ check (runes_of_ascii "// top
+packet
+    // c0
+x_y_z // c1
+{ match
+    // c3
+leftPad // c4
+as // c5a
+  // c5b
+string_ // c6a
+  // c6b
+{ 0 // c8
+: A , ""a	b"" // c12a
+  // c12b
+:
+    // c13
+x_y_z
+    // c14
+,
+    // c15
+} , @calculatedFrom( ""\n""
+    // c19
+) // c20a
+  // c20b
+metadata
+    // c21
+{ repeat // c23a
+  // c23b
+lengthOf f32a // c25a
+  // c25b
+`line1
+line2` , // c27
+MetaDataX // c28
+{ u8x
+    // c30
+matchKey // c31a
+  // c31b
+, } , // c34a
+  // c34b
+uint8 // c35a
+  // c35b
+a1 // c36
+@lengthOf( body // c38
+) , string charz `a\` ,
+    // c44
+} , // c46
+} // c47
+packet // c48
+charz // c49
+{ // c50a
+  // c50b
+} MetaData // c52a
+  // c52b
+A // c53
+{ }
+    // c55
+")).
+Eval vm_compute in ("<<<M3924>>>" ++ check (runes_of_ascii "packet stringy {
+    @calculatedFrom(""abc"")
+    @calculatedFrom(""abc"")
+    repeat char[1] charz,
+    @lengthOf(float)
+    @tag(00)
+    @calculatedFrom(""{,}"")
+    // `tick` ""quote"" 'q'
+    match int as body {
+        ["""", 4294967296, 0] : float,
+    },
+}
+
+packet crc {
+    @rightPad(' ')
+    @calculatedFrom(""" ++ [128512]%N ++ runes_of_ascii """)
+    @tag(00)
+    int16 falsey `u8 x,`,// c
+    @leftPad('\x00')
+    string_,
+    @lengthOf(repeatCount)
+    f64 f32a @lengthOf(u8x),
+    char[] falsey,
+    @tag(42)
+    @tag(10)
+    zchar[255] body `
+        `,
+    @tag(65535)
+    // " ++ [27880; 37322]%N ++ runes_of_ascii "
+    crc @calculatedFrom(""CRC32""),
+}
+
+options {
+    repeatCount = '0'
+}")).
+Eval vm_compute in ("<<<M877>>>" ++ check (runes_of_ascii "packet
+falsey
+{ match//x
+len	as T { [ //	t
+00 , ""a	b""
+, // 50% %s
+7 ,
+""\" ++ [233]%N ++ runes_of_ascii """ ,
+""abc"" ,
+""" ++ [233]%N ++ runes_of_ascii "t" ++ [233]%N ++ runes_of_ascii """  , ""CRC32""
+    ,
+    """ ++ [28040; 24687]%N ++ runes_of_ascii """ ]	: As
+, 10
+: lengthOf , ""{,}"" : crc // packet A { u8 x, }
+, """ ++ [128512]%N ++ runes_of_ascii """ :
+    body , }
+    ,// " ++ [27880; 37322]%N ++ runes_of_ascii "
+@leftPad () @rightPad
+// " ++ [128512]%N ++ runes_of_ascii " emoji
+// " ++ [128512]%N ++ runes_of_ascii " emoji
+(
+// " ++ [128512]%N ++ runes_of_ascii " emoji
+// @lengthOf(
+) @rightPad ( '\x00'
+    )
+match BodyLength as /// triple
+body{ 7 : Pad , 4294967296
+:  _x
+    , [ // a // b
+""packet""
+    ,""x y"" ]:
+    //x
+    Z9_
+[ ""packet""  , ""a\""b""]
+: float	, } ,options1 BodyLength, @tag( 4294967296 ) char[ 007
+    ]asx@calculatedFrom(
+""`tick`"") `it's`
+// trailing space 
+// " ++ [128512]%N ++ runes_of_ascii " emoji
+, } 	 ")).
+Eval vm_compute in ("<<<M460>>>" ++ check (runes_of_ascii "packet  Logon { zchar[ // trailing space 
+7//	t
+] repeatCount ,crc @calculatedFrom( /// triple
+""CRC32"" ) `100% of %d` , @rightPad ( //	t
+'0'
+) @lengthOf( i64_)
+    @rightPad ( '\x00'/// triple
+) // 50% %s
+repeat char[
+7 ]len
+`it's`
+,repeat	Z9_ ,
+} packet// a // b
+packetx	{ @lengthOf(
+    // " ++ [27880; 37322]%N ++ runes_of_ascii "
+    metadata
+    )string_ { char[]  As `" ++ [233]%N ++ runes_of_ascii "`
+, char[ 10
+]u8x  `say ""hi""`
+// trailing space 
+// `tick` ""quote"" 'q'
+, }
+,zchar[
+10
+// " ++ [27880; 37322]%N ++ runes_of_ascii "
+// c
+]
+body
+    @lengthOf(
+T )  `{ , }` , T { _x u // 50% %s
+, } ,packetx f32a ,
+} packet chars {  @leftPad ( )
+string
+tag @lengthOf(charz),
+}
+")).
+Eval vm_compute in ("<<<M3601>>>" ++ check (runes_of_ascii "MetaData crc {
+}// c
+
+packet Header {
+    calculatedFrom matchKey `" ++ [233]%N ++ runes_of_ascii "`,
+    @leftPad('\x00')
+    i64 Logon,
+    @tag(0)
+    char[4294967296] i8i8,
+    @tag(255)
+    char zchar @calculatedFrom(""// no comment""),
+    @lengthOf(asx)
+    float,
+    @calculatedFrom(""" ++ [28040; 24687]%N ++ runes_of_ascii """)
+    repeat int32 As,
+    zchar `" ++ [28040; 24687; 31867; 22411]%N ++ runes_of_ascii "`,// @lengthOf(
+    u32 _x @calculatedFrom(""a\\"") `u8 x,`,
+    @calculatedFrom(""\n"")
+    char[] BodyLength `" ++ [233]%N ++ runes_of_ascii "`,
+}
+
+root packet chars {
+    zchar[00] Z9_,
+}
+
+options {
+    i8i8 = 10
+    A = ' ';
+    float = '0'
+    msg_type = ""x y"";
+    leftPad = ' ';
+}")).
+Eval vm_compute in ("<<<M59>>>" ++ check (runes_of_ascii "packet
+chars {
+match
+    A as stringy
+    { ""CRC32""
+    // `tick` ""quote"" 'q'
+    : len
+    ,
+    [	""x y""] : BodyLength	, // packet A { u8 x, }
+}	,}
+    options
+{ // @lengthOf(
+string_= '\x00'
+; /// triple
+} packet
+/// triple
+// " ++ [27880; 37322]%N ++ runes_of_ascii "
+crc { @rightPad ( '\x00'
+) match
+    Header  as rootA{
+[ 255	, 42
+    ,""1""
+, ""{,}"" ,
+// 50% %s
+// 50% %s
+10	, ""CRC32"" , 7 ]: leftPad ,}, uint32 crc,// packet A { u8 x, }
+u8x@lengthOf(MetaDataX
+/// triple
+/// triple
+) , i32 o
+    // `tick` ""quote"" 'q'
+    `crlf
+line` , } // packet A { u8 x, }")).
+Eval vm_compute in ("<<<M3821>>>" ++ check (runes_of_ascii "options  {
+LittleEndian =
+
+false; ArrayPrefixLenType 
+=u8
+
+    ;
+	}  packet Reject{ int8
+    x	, 
+}
+packet
+Trade	{ zchar[
+4
+    ] 
+msgKind  ,
+}	root	packet
+
+    Leg{
+
+repeat  i64
+Note 
+,  u8
+
+    venue
+
+, @leftPad 
+( 
+'0' )char[ 6
+	] Qty
+	, @rightPad	(
+	'\x00'
+)	char[ 12
+	]	count
+
+    ,
+
+    repeat 
+Reject , repeat  char[
+    3
+	] 
+Px
+    , u16
+    lastPx  ,
+
+    u16
+Acct @lengthOf(
+Body
+	) ,  match
+    lastPx as
+
+    Body
+	{	104
+    : Reject
+	,
+	61
+:
+Trade  ,
+}
+
+    ,
+	}
+")).
+Eval vm_compute in ("<<<M4030>>>" ++ check (runes_of_ascii "packet chars {
+    i8i8 @calculatedFrom(""a\""b"") `
+    `,
+    @lengthOf(Foo)
+    @lengthOf(roots)
+    @tag(255)
+    zchar[7] rootA @calculatedFrom("""") `" ++ [28040; 24687; 31867; 22411]%N ++ runes_of_ascii "`,
+}
+
+// packet A { u8 x, }
+//x
+packet u128 {
+    match calculatedFrom as i64_ {
+        007 : charz,
+        1 : u8x,
+        00 : stringy,
+        ""1"" : roots,
+        42 : Packet,
+    },
+    // " ++ [27880; 37322]%N ++ runes_of_ascii "
+    //	t
+    a1,
+    u ``,
+    @calculatedFrom(""`tick`"")
+    @leftPad('0')
+    repeat char[1] x,
+}
+
+options {
+    Z9_ = '0';
+}")).
+Eval vm_compute in ("<<<M1026>>>" ++ check (runes_of_ascii "root packet  len
+{
+}
+MetaData	zchar { } root packet len{
+match lengthOf
+as x {	""it's"" : i64_, [
+""a	b"" ,
+0123456789 ,
+""\" ++ [233]%N ++ runes_of_ascii """ , 00, """ ++ [28040; 24687]%N ++ runes_of_ascii """ ] : // `tick` ""quote"" 'q'
+float [
+// @lengthOf(
+// packet A { u8 x, }
+""CRC32"" , ""{,}"" // a // b
+]: f32a ,
+[ ""it's"" ,  """ ++ [128512]%N ++ runes_of_ascii """
+    , ""a	b"" , ""it's"" , """ ++ [128512]%N ++ runes_of_ascii """	,3 ] :u128 , """ ++ [128512]%N ++ runes_of_ascii """ :
+    chars
+,[ // @lengthOf(
+7 , """"
+    ]
+: charz
+    ,
+} , char[ 00] BodyLength
+, @tag( 4294967296 )
+    string_ , @lengthOf(
+Foo ) BodyLength int,
+    }
+")).
+Eval vm_compute in ("<<<M3330>>>" ++ check (runes_of_ascii "// top
+packet
+    // c0
+leftPad
+    // c1
+{
+    // c2
+@calculatedFrom(
+    // c3
+""packet""
+    // c4
+)
+    // c5
+chars
+    // c6
+Header
+    // c7
+,
+    // c8
+Z9_
+    // c9
+{
+    // c10
+int16
+    // c11
+roots
+    // c12
+@lengthOf(
+    // c13
+f32a
+    // c14
+)
+    // c15
+`line1
+line2`
+    // c16
+,
+    // c17
+rootA
+    // c18
+,
+    // c19
+}
+    // c20
+,
+    // c21
+repeat
+    // c22
+int8
+    // c23
+int
+    // c24
+,
+    // c25
+}
+    // c26
+")).
+Eval vm_compute in ("<<<M3851>>>" ++ check (runes_of_ascii "packet
+    T
+
+    { @lengthOf(
+len
+
+    )
+
+match
+	crc  as
+    string_{	10 : Pad 
+,	// " ++ [128512]%N ++ runes_of_ascii " emoji
+    7 
+:
+
+    _x , 7 //x
+:
+	stringy,// c
+		}
+
+    ,  o  @calculatedFrom(
+
+""a\""b"" )`two words`, match
+Foo
+as options1	{
+	[
+    ""// no comment"" 
+]
+    : 
+metadata	// trailing space 
+	,
+} ,	@rightPad
+(
+'\x00')repeat
+	o 
+i8i8 , rootA
+	// `tick` ""quote"" 'q'
+  , } 
+options{ A=
+    65535
+	}	// trailing space 
+ 
+")).
+Eval vm_compute in ("<<<M255>>>" ++ check (runes_of_ascii "packet metadata {
+    zchar[
+1 ] stringy
+    ,repeat float uint8x,
+@tag(
+255 )
+    // `tick` ""quote"" 'q'
+    zchar
+    // `tick` ""quote"" 'q'
+    @lengthOf( _x	), tag
+@lengthOf( /// triple
+i64_ ) , repeat repeatCount
+{ char o
+    // `tick` ""quote"" 'q'
+    ,
+    char[ 7 ]
+    T , }
+    ,
+} root
+packet	u8x
+{ @tag( 0)repeat
+    falsey string_ , @calculatedFrom( """"
+    ) lengthOf, u16 calculatedFrom ,}
+")).
+Eval vm_compute in ("<<<M916>>>" ++ check (runes_of_ascii "packet metadata { uint8x { repeat //
+u16 string_, }
+//	t
+//x
+, } packet MetaDataX  { @rightPad	(' ' ) tag {  zchar[ 007
+] tag
+//x
+// " ++ [27880; 37322]%N ++ runes_of_ascii "
+@calculatedFrom(
+""1"" ) ,
+    string u , repeat A	T ,
+// 50% %s
+// packet A { u8 x, }
+roots @lengthOf(
+    Logon),
+    }
+, @calculatedFrom( """ ++ [28040; 24687]%N ++ runes_of_ascii """ )repeat
+string_	`tab	here`,}packet x
+{ float32 // 50% %s
+BodyLength @lengthOf(Header )
+`doc`//	t
 ,}
 ")).
-Eval vm_compute in ("<<<M1622>>>" ++ check (runes_of_ascii "packet A {
-    u8 a,
+Eval vm_compute in ("<<<M4070>>>" ++ check (runes_of_ascii "packet	// a // b
+	  rootA
+{}options{ 
 }
 
-packet B {
-    u16 b,
-}
+    MetaData body
+    {	//x
+  	i8i8 	 //
+	  A
+, 
+i16
+	Header  ,
+	calculatedFrom T
 
-root packet P {
-    u8 K,
-    match K as M {
-        [1, 2] : A,
-        3 : B,
-        7 : A,
-    },
-}")).
-Eval vm_compute in ("<<<M306>>>" ++ check (runes_of_ascii "packet
-    u128
-{ @lengthOf( options1
-)repeat int`" ++ [28040; 24687; 31867; 22411]%N ++ runes_of_ascii "` ,
-@calculatedFrom(
-    """" )
-repeat
-f32 Z9_	,
-zchar[
-007
-] msg_type
-`doc`
+    , char[]	packetx  `say ""hi""`
     ,
+Foo uint8x ,int64  Header`doc` 
+,} 
+MetaData
+
+packetx
+{ i64 
+string_
+    `say ""hi""` ,
+    uint8
+calculatedFrom
+, a1 MetaDataX,
+    MetaDataX tag
+	, f64
+u8x 
+,
+	f64
+asx 
+,  }// `tick` ""quote"" 'q'")).
+Eval vm_compute in ("<<<M3894>>>" ++ check (runes_of_ascii "
+
+  // top
+
+MetaData // c0
+  Foo  // c1a
+	// c1b
+
+	{
+    // c2
+  zchar[ 	 // c3a
+  	// c3b
+  0// c4
+  ]// c5
+matchKey
+        // c6
+,  // c7a
+	// c7b
+}
+    // c8
+	options 	 // c9
+    {  // c10
+
+  lengthOf  // c11a
+	// c11b
+      =  // c12a
+      // c12b
+      i32
+    // c13
+  u // c14
+
+  =	// c15a
+	// c15b
+00
+// c16
+  ; // c17
+  }	// c18
+")).
+Eval vm_compute in ("<<<M455>>>" ++ check (runes_of_ascii "options { uint8x = '\x00' ; a1 =zchar[ 4294967296
+    ] ;Packet =	007;
+}	MetaData	rootA {roots repeatCount `two words` , string f32a `u8 x,` ,	char[0 ]
+rootA// a // b
+`doc` , o stringy
+`tab	here`, }	MetaData
+    u128 {int16
+    asx `a\` , // " ++ [27880; 37322]%N ++ runes_of_ascii "
+string f32a ,
+// " ++ [27880; 37322]%N ++ runes_of_ascii "
+// 50% %s
+i16 o`line1
+line2` ,
+    u64 Z9_ `u8 x,` ,
+//x
+// 50% %s
 }
 ")).
-Eval vm_compute in ("<<<M1811>>>" ++ check (runes_of_ascii "packet A {
+Eval vm_compute in ("<<<M899>>>" ++ check (runes_of_ascii "
+root packet
+// c
+// c
+packetx { @tag(1) T uint8x
+,}	packet crc
+{ @calculatedFrom(
+    ""abc""
+) msg_type  charz `line1
+line2` ,} packet	Pad { }root packet x{
+@tag( 0 ) zchar[
+10 ] metadata ,_x charz ,
+x
+`// not a comment`
+    ,int16 roots,	string // " ++ [27880; 37322]%N ++ runes_of_ascii "
+i64_`line1
+line2` ,
+repeat
+lengthOf
+`` ,
+    zchar[
+42 // c
+] int , }")).
+Eval vm_compute in ("<<<M4060>>>" ++ check (runes_of_ascii "  packet	metadata { 	 // trailing space 
+roots	uint8x	,
+	@leftPad(
+	) zchar[	3 ]
+    Header
+, i64_ 
+roots
+, @lengthOf(A 
+)
+        // " ++ [128512]%N ++ runes_of_ascii " emoji
+	  @lengthOf( 	 // trailing space 
+    pack )@lengthOf(
+	calculatedFrom
+    // a // b
+  	/// triple
+  )  
+  // trailing space 
+      u8
+	charz
+
+`crlf
+line`,
+    }")).
+Eval vm_compute in ("<<<M365>>>" ++ check (runes_of_ascii "packet tag {@calculatedFrom(""" ++ [28040; 24687]%N ++ runes_of_ascii """ ) A	`line1
+line2`, @leftPad ( //x
+' '
+    ) string_ , //	t
+@tag(	42 ) u8 body @calculatedFrom(
+// " ++ [128512]%N ++ runes_of_ascii " emoji
+// " ++ [27880; 37322]%N ++ runes_of_ascii "
+""a	b"" ) ,
+} packet body  { zchar[//x
+4294967296  ]chars ,
+// c
+// trailing space 
+@rightPad	( ' ') u @lengthOf( a1 ) ,
+} MetaData
+    trueish
+{
+}
+")).
+Eval vm_compute in ("<<<M4244>>>" ++ check (runes_of_ascii "
+// 50% %s
+packet
+a1
+{
+
+zchar[ 
+        // a // b
+// 50% %s
+
+	007
+
+    ]
+    T
+    `it's` 
+, @rightPad
+// a // b
+	('\x00'	)o
+	,
+    }
+packet Logon
+	{	} packet
+
+Logon 	 //x
+	{
+    repeat  // " ++ [128512]%N ++ runes_of_ascii " emoji
+uint16
+u128
+        //
+	`a\` ,falsey @calculatedFrom(
+    ""packet""
+) ,}
+
+")).
+Eval vm_compute in ("<<<M485>>>" ++ check (runes_of_ascii "MetaData
+//	t
+// 50% %s
+f32a
+{char[ 3
+]lengthOf ,
+zchar[7 ] Header
+,u32
+x_y_z ,}packet Foo { } packet chars {
+    metadata
+    { msg_type
+u128	`a\` ,
+},	} MetaData
+    MetaDataX { }
+options { options1 = 0123456789 ; body= 007 ;
+    Foo
+    =char[] ;u8x=
+    true ; }
+")).
+Eval vm_compute in ("<<<M1599>>>" ++ check (runes_of_ascii "// 50% %s
+packet	a1
+    { zchar[
+// a // b
+// 50% %s
+007]
+T `it's`
+    ,@rightPad
+    // a // b
+    (
+'\x00')
+    o repeatCount , packet  packet Logon {  }packet	Logon //x
+{ repeat // " ++ [128512]%N ++ runes_of_ascii " emoji
+uint16 u128
+    //
+    `a\`,
+falsey
+@calculatedFrom(""packet"" ) ,
+    } 	 ")).
+Eval vm_compute in ("<<<M1592>>>" ++ check (runes_of_ascii "// 50% %s
+packet	a1
+    { zchar[
+// a // b
+// 50% %s
+007]
+T `it's`
+    ,@rightPad
+    // a // b
+    (
+'\x00')
+    o repeatCount , , }  packet Logon {  }packet	Logon //x
+{ repeat // " ++ [128512]%N ++ runes_of_ascii " emoji
+uint16 u128
+    //
+    `a\`,
+falsey
+@calculatedFrom(""packet"" ) ,
+    } 	 ")).
+Eval vm_compute in ("<<<M1528>>>" ++ check (runes_of_ascii "// 50% %s
+packet	a1
+    zchar[ {
+// a // b
+// 50% %s
+007]
+T `it's`
+    ,@rightPad
+    // a // b
+    (
+'\x00')
+    o repeatCount , }  packet Logon {  }packet	Logon //x
+{ repeat // " ++ [128512]%N ++ runes_of_ascii " emoji
+uint16 u128
+    //
+    `a\`,
+falsey
+@calculatedFrom(""packet"" ) ,
+    } 	 ")).
+Eval vm_compute in ("<<<M4177>>>" ++ check (runes_of_ascii "MetaData x {
+    _x Z9_ `u8 x,`,
+    Z9_ matchKey,
+    u128 roots,
+    lengthOf matchKey,
+    char[3] packetx `100% of %d`,
+    char[7] options1 `doc`,// 50% %s
+}
+
+options {
+    leftPad = ' '
+}
+
+packet roots {
+    float32 T @lengthOf(int) `" ++ [233]%N ++ runes_of_ascii "`,
+}
+
+packet rootA {
+}")).
+Eval vm_compute in ("<<<M3527>>>" ++ check (runes_of_ascii "
+packet  len {
+string  tag ,  @calculatedFrom(
+""" ++ [233]%N ++ runes_of_ascii "t" ++ [233]%N ++ runes_of_ascii """
+
+)  repeat
+
+Z9_
+{	// " ++ [27880; 37322]%N ++ runes_of_ascii "
+zchar[ 65535  // c
+]//	t
+	len
+    @lengthOf(
+
+matchKey)
+,
+    //
+	/// triple
+
+} 
+,	}  MetaData
+float  {
+f32a
+    rootA	// trailing space 
+    `" ++ [233]%N ++ runes_of_ascii "`  , // trailing space 
+    }
+")).
+Eval vm_compute in ("<<<M4320>>>" ++ check (runes_of_ascii "
+packet 
+Sub{u8
+a
+
+    ,
+	@calculatedFrom(
+""CRC16""
+    )
+	i16
+	SubSum
+    ,
+}
+root  packet
+Frame{
+
+u16
+MsgType
+    , u16 
+BodyLen
+
+@lengthOf(
+
+Body )
+    ,
+    Sub Body,
+
+    string 
+note, @calculatedFrom(
+
+""CRC16"" )
+    i16 Checksum
+	,
+u8
+    tail,} ")).
+Eval vm_compute in ("<<<M1666>>>" ++ check (runes_of_ascii "// 50% %s
+packet	a1
+    { zchar[
+// a // b
+// 50% %s
+007]
+T `it's`
+    ,@rightPad
+    // a // b
+    (
+'\x00')
+    o repeatCount , }  packet Logon {  }packet	Logon //x
+{ repeat // " ++ [128512]%N ++ runes_of_ascii " emoji
+uint16 u128
+    //
+    `a\`,
+falsey
+""packet"" ) ,
+    } 	 ")).
+Eval vm_compute in ("<<<M957>>>" ++ check (runes_of_ascii "
+packet Packet  {
+    @tag(
+3 )
+u8x { string_ @lengthOf(
+options1 )
+, options1 @lengthOf(u128 ) , float64
+Foo @calculatedFrom( ""abc"" ) `two words` ,
+//	t
+// 50% %s
+char[]falsey @lengthOf(o), // `tick` ""quote"" 'q'
+} ,}
+packet zchar { }
+")).
+Eval vm_compute in ("<<<M131>>>" ++ check (runes_of_ascii "root packet //
+metadata// " ++ [27880; 37322]%N ++ runes_of_ascii "
+{// 50% %s
+@calculatedFrom( ""1""
+    ) repeat
+    i16 body ,
+// @lengthOf(
+// c
+@calculatedFrom( // 50% %s
+""a	b""// 50% %s
+)
+    char roots `{ , }`	, repeat zchar[10 ]
+    pack// a // b
+`doc` ,
+} //")).
+Eval vm_compute in ("<<<M3896>>>" ++ check (runes_of_ascii "
+
+  options {
+
+}
+    root	packet// packet A { u8 x, }
+chars	{ 
+@tag(
+
+    1
+)zchar[
+	3  ] falsey 
+`" ++ [233]%N ++ runes_of_ascii "`
+
+,}  options
+	{  o
+
+=' ' tag 
+= 
+char[]	;
+	float 
+=' '
+
+;  }  // a // b
+MetaData  zchar
+
+{
+BodyLength
+
+_x	, 
+}
+
+")).
+Eval vm_compute in ("<<<M689>>>" ++ check (runes_of_ascii "MetaData // @lengthOf(
+options1 {
+    // a // b
+    float32 a1
+`a\`
+    // " ++ [128512]%N ++ runes_of_ascii " emoji
+    ,
+leftPad
+    // packet A { u8 x, }
+    Packet `" ++ [28040; 24687; 31867; 22411]%N ++ runes_of_ascii "`,zchar[
+4294967296 ] repeatCount, f32 x
+,
+    roots packetx`" ++ [233]%N ++ runes_of_ascii "` , }
+")).
+Eval vm_compute in ("<<<M3643>>>" ++ check (runes_of_ascii "packet stringy {
+}// c
+
+MetaData rootA {
+    zchar[42] rootA `it's`,
+    Logon i64_,
+    char[] repeatCount `two words`,
+    //
+    int64 int,
+    float64 tag `line1
+        line2`,
+    f32 Foo `" ++ [233]%N ++ runes_of_ascii "`,
+}")).
+Eval vm_compute in ("<<<M913>>>" ++ check (runes_of_ascii "  root
+    packet//x
+len
+{stringy @calculatedFrom( ""\n""
+) `line1
+line2`
+//
+// c
+, i32 As `" ++ [233]%N ++ runes_of_ascii "` , @calculatedFrom( ""\" ++ [233]%N ++ runes_of_ascii """ ) repeat uint64 tag , repeat
+    i32 // `tick` ""quote"" 'q'
+pack , } // c")).
+Eval vm_compute in ("<<<M1388>>>" ++ check (runes_of_ascii "MetaData
+    // `tick` ""quote"" 'q'
+    string_ { // @lengthOf(
+zchar[
+    65535 ]
+    rootA,
+u8x// packet A { u8 x, }
+int ,
+i8
+Logon
+, uint8
+tag//x
+`// not a comment` ,
+    }
+")).
+Eval vm_compute in ("<<<M3413>>>" ++ check (runes_of_ascii "packet
+    A
+{u8
+    a 
+, }
+
+packet 
+B
+
+{u16
+b,}
+    root packet
+P
+    {
+u8
+
+    K,  match
+	K
+
+    as M 
+{ [1 
+,
+	2 ] : A	,
+    3:B 
+, 7
+:
+
+    A
+,
+
+    }
+	,}
+
+")).
+Eval vm_compute in ("<<<M930>>>" ++ check (runes_of_ascii "root packet
+    string_ {// trailing space 
+@tag(
+    0 )
+    char[]
+    // trailing space 
+    MetaDataX`it's`	, // @lengthOf(
+trueish { pack f32a, } , // 50% %s
+}")).
+Eval vm_compute in ("<<<M1307>>>" ++ check (runes_of_ascii "// " ++ [128512]%N ++ runes_of_ascii " emoji
+packet int// 50% %s
+{ //x
+options1 ,
+    } root packet
+uint8x {
+@tag( 1 ) zchar`say ""hi""`
+    ,  @tag(  255
+) u64
+matchKey ,
+/// triple
+//	t
+} 	 ")).
+Eval vm_compute in ("<<<M2111>>>" ++ check (runes_of_ascii "MetaData BodyLength
+{ int8 Foo
+, string
+    MetaDataX , float zchar ,pack options1 options1
+,asx string_, }
+packet u8x {Foo@lengthOf(charz )
+`" ++ [28040; 24687; 31867; 22411]%N ++ runes_of_ascii "`,  }
+")).
+Eval vm_compute in ("<<<M1048>>>" ++ check (runes_of_ascii "//
+packet Packet { repeat char[] len,zchar As
+    `line1
+line2` , @lengthOf( charz
+// " ++ [27880; 37322]%N ++ runes_of_ascii "
+// `tick` ""quote"" 'q'
+) repeat int8 metadata, /// triple
+}")).
+Eval vm_compute in ("<<<M2171>>>" ++ check (runes_of_ascii "MetaData BodyLength
+{ int8 Foo
+, string
+    MetaDataX , float zchar ,pack options1
+,asx string_, }
+packet u8x {Foo@lengthOf(charz ) )
+`" ++ [28040; 24687; 31867; 22411]%N ++ runes_of_ascii "`,  }
+")).
+Eval vm_compute in ("<<<M3949>>>" ++ check (runes_of_ascii "packet A {
     match k as n {
         [
-            ""a"", 22, ""c c"", 4, ""e"",
-            66, ""g""
+            ""a"", ""bb"", 007, ""d"", ""e"",
+            66, ""g"", ""h"", 9
         ] : B,
         2 : C,
     },
 }")).
-Eval vm_compute in ("<<<M2010>>>" ++ check (runes_of_ascii "
-MetaData body{ i64
-
-pack  
-      // c
-  `it's` ,
-
-    }
-
-packet
-    stringy
+Eval vm_compute in ("<<<M2173>>>" ++ check (runes_of_ascii "MetaData BodyLength
+{ int8 Foo
+, string
+    MetaDataX , float zchar ,pack options1
+,asx string_, }
+packet u8x {Foo@lengthOf(charz ;
+`" ++ [28040; 24687; 31867; 22411]%N ++ runes_of_ascii "`,  }
+")).
+Eval vm_compute in ("<<<M884>>>" ++ check (runes_of_ascii "MetaData stringy { char[]	u, u16	o , roots
+T ,
+string Pad ,falsey
+msg_type
+,
+    zchar[ 7 ] Logon, }MetaData int {	u64
+u8x
+    `" ++ [28040; 24687; 31867; 22411]%N ++ runes_of_ascii "` ,}
+")).
+Eval vm_compute in ("<<<M2236>>>" ++ check (runes_of_ascii "options
     {
-
-    int16  calculatedFrom,
-
-    } ")).
-Eval vm_compute in ("<<<M1238>>>" ++ check (runes_of_ascii "root packet matchKey { zchar[ 3 ] pack
-// c
-@calculatedFrom( ""a	b"" ) `doc` , } options { } MetaData A { int8 msg_type , }")).
-Eval vm_compute in ("<<<M1931>>>" ++ check (runes_of_ascii "packet A {
-    Inner {
-        u8 x `a
-        b`,
-        Deep {
-            u8 y `a
-            b`,
-        },
-    },
-}")).
-Eval vm_compute in ("<<<M1744>>>" ++ check (runes_of_ascii "packet A {
-    u16 len @lengthOf(body) `
-    x`,
-    u32 crc @calculatedFrom(""CRC32"") `
-    x`,
-    string body,
-}")).
-Eval vm_compute in ("<<<M968>>>" ++ check (runes_of_ascii "packet A {
-    match k as n {
-        ""\
-"" : B,
-        [""\
-"", 1] : C,
-        [1,2,3,4,5,""\
-""] : D,
-    },
-}")).
-Eval vm_compute in ("<<<M1474>>>" ++ check (runes_of_ascii "options {
-    LittleEndian = true;
-}
-root packet P {
-    u16 a,
-    u32 Sum @calculatedFrom(""CR\
-C32""),
-}
+x_y_z// " ++ [27880; 37322]%N ++ runes_of_ascii "
+= 10 repeat }
+packet body {
+    @calculatedFrom(
+// trailing space 
+// " ++ [27880; 37322]%N ++ runes_of_ascii "
+""1""
+)	match T as Foo
+    {
+255 :T , }
+,}")).
+Eval vm_compute in ("<<<M172>>>" ++ check (runes_of_ascii "options{
+    metadata = '0'}
+options{u =
+1 ;msg_type = string;	As = ""{,}"";
+i8i8 = string; crc// `tick` ""quote"" 'q'
+=
+char[ 4294967296
+] }")).
+Eval vm_compute in ("<<<M2140>>>" ++ check (runes_of_ascii "MetaData BodyLength
+{ int8 Foo
+, string
+    MetaDataX , float zchar ,pack options1
+,asx string_, }
+ u8x {Foo@lengthOf(charz )
+`" ++ [28040; 24687; 31867; 22411]%N ++ runes_of_ascii "`,  }
 ")).
-Eval vm_compute in ("<<<M1638>>>" ++ check (runes_of_ascii "packet chars {
+Eval vm_compute in ("<<<M2038>>>" ++ check (runes_of_ascii "
+packet leftPad {
+@leftPad( '0')
+u32
+i64_ `100% of %d` ,repeat// %50% %s
+i8 chars
+    ,
+} MetaData
+    f32a
+{ // packet A { u8 x, }
+}")).
+Eval vm_compute in ("<<<M1973>>>" ++ check (runes_of_ascii "
+packet leftPad {
+@leftPad( '0')
+u32
+i64_ , `100% of %d`repeat// 50% %s
+i8 chars
+    ,
+} MetaData
+    f32a
+{ // packet A { u8 x, }
+}")).
+Eval vm_compute in ("<<<M2290>>>" ++ check (runes_of_ascii "options
+    {
+x_y_z// " ++ [27880; 37322]%N ++ runes_of_ascii "
+= 10 ; }
+packet body {
+    @calculatedFrom(
+// trailing space 
+// " ++ [27880; 37322]%N ++ runes_of_ascii "
+""1""
+)	match T as {
+    Foo
+255 :T , }
+,}")).
+Eval vm_compute in ("<<<M2246>>>" ++ check (runes_of_ascii "options
+    {
+x_y_z// " ++ [27880; 37322]%N ++ runes_of_ascii "
+= 10 ; }
+@tag( body {
+    @calculatedFrom(
+// trailing space 
+// " ++ [27880; 37322]%N ++ runes_of_ascii "
+""1""
+)	match T as Foo
+    {
+255 :T , }
+,}")).
+Eval vm_compute in ("<<<M2263>>>" ++ check (runes_of_ascii "options
+    {
+x_y_z// " ++ [27880; 37322]%N ++ runes_of_ascii "
+= 10 ; }
+packet body {
+    @calculatedFrom(
+// trailing space 
+// " ++ [27880; 37322]%N ++ runes_of_ascii "
+
+)	match T as Foo
+    {
+255 :T , }
+,}")).
+Eval vm_compute in ("<<<M4075>>>" ++ check (runes_of_ascii "packet leftPad {
+    @leftPad('0')
+    u32 i64_ `1?00% of %d`,
+    repeat i8 chars,
 }
 
-packet MetaDataX {
-    // c
-    @tag(42)
-    i16 string_,
-    repeat x `say ""hi""`,
+MetaData f32a {
+    // packet A { u8 x, }
 }")).
-Eval vm_compute in ("<<<M2024>>>" ++ check (runes_of_ascii "packet A {
-    Inner {
-        match k as n {
-            [1, 22, 007, 4] : B,
-        },
-    },
-}")).
-Eval vm_compute in ("<<<M881>>>" ++ check (runes_of_ascii "packet A {
-  match k as n {
-    [1, 22, ""c c"", 4, 5, ""f"", 7, 8, ""i"", 10] : B,
-    2 : C
-  },
-}")).
-Eval vm_compute in ("<<<M1395>>>" ++ check (runes_of_ascii "
-// c
-packet chars { } packet MetaDataX { @tag( 42 ) i16 string_ , repeat x `say ""hi""` , }")).
-Eval vm_compute in ("<<<M1197>>>" ++ check (runes_of_ascii "MetaData float { float64 charz `
-` , } root
-// c
-packet chars { @rightPad ( '0' ) Foo , }")).
-Eval vm_compute in ("<<<M1408>>>" ++ check (runes_of_ascii "packet chars { } packet MetaDataX { // c
-@tag( 42 ) i16 string_ , repeat x `say ""hi""` , }")).
-Eval vm_compute in ("<<<M275>>>" ++ check (runes_of_ascii "options {BodyLength=	""abc"" ;
-int	=
-""""
-; chars
-    = true	body
-    =
-// c
-//
-'\x00'
-}
+Eval vm_compute in ("<<<M2404>>>" ++ check (runes_of_ascii "MetaData
+    calculatedFrom
+{ zchar[  10 ]
+    As`tab	here`,
+    }// trailing space 
+options  { " ++ [252]%N ++ runes_of_ascii "ber ='\x00' ; } packet A
+{ }
 ")).
-Eval vm_compute in ("<<<M1138>>>" ++ check (runes_of_ascii "packet metadata { Logon { A `" ++ [28040; 24687; 31867; 22411]%N ++ runes_of_ascii "` , // c
-tag o , } , zchar len `// not a comment` , }")).
-Eval vm_compute in ("<<<M1343>>>" ++ check (runes_of_ascii "packet o
-// c
-{ repeat Logon uint8x , } options { asx = zchar[ 3 ] stringy = '\x00' }")).
-Eval vm_compute in ("<<<M1375>>>" ++ check (runes_of_ascii "packet o { repeat Logon uint8x , } options { asx = zchar[ 3 ] stringy = '\x00'
-// c
-}")).
-Eval vm_compute in ("<<<M1303>>>" ++ check (runes_of_ascii "// c
-MetaData body { i64 pack `it's` , } packet stringy { int16 calculatedFrom , }")).
-Eval vm_compute in ("<<<M1653>>>" ++ check (runes_of_ascii "
-packet
-    // c
-
-x 
-{
-
-    @rightPad
-
-( )
-repeat roots Logon
-
-    `doc`,  }")).
-Eval vm_compute in ("<<<M835>>>" ++ check (runes_of_ascii "packet A {
-  match k as n {
-    [1, 22, 007, 4, 5, 66, 7] : B
-    2 : C
-  },
-}")).
-Eval vm_compute in ("<<<M784>>>" ++ check (runes_of_ascii "packet A {
-  match k as n {
-    [""a"", ""bb"", ""c c""] : B,
-    2 : C
-  },
-}")).
-Eval vm_compute in ("<<<M790>>>" ++ check (runes_of_ascii "packet A {
-  match k as n {
-    [1, 22, ""c c""] : B,
-    2 : C
-  },
-}")).
-Eval vm_compute in ("<<<M779>>>" ++ check (runes_of_ascii "packet A {
-  match k as n {
-    [""a"", 22] : B,
-    2 : C
-  },
-}")).
-Eval vm_compute in ("<<<M1298>>>" ++ check (runes_of_ascii "packet x { @rightPad ( ) repeat roots Logon `doc` , } // c
-")).
-Eval vm_compute in ("<<<M1296>>>" ++ check (runes_of_ascii "packet x { @rightPad ( ) repeat roots Logon `doc` , // c
-}")).
-Eval vm_compute in ("<<<M958>>>" ++ check (runes_of_ascii "MetaData M {
-    u8 x `tab
-	x`,
-    T t `tab
-	x`,
-}")).
-Eval vm_compute in ("<<<M85>>>" ++ check (runes_of_ascii "
-MetaData f32a { char[ 42
-    ] zchar
-, //x
-}")).
-Eval vm_compute in ("<<<M1099>>>" ++ check (runes_of_ascii "
-// c
-root packet u128 { chars `it's` , }")).
-Eval vm_compute in ("<<<M522>>>" ++ check (runes_of_ascii "root packet tag { }  packet MetaDataX{")).
-Eval vm_compute in ("<<<M1854>>>" ++ check (runes_of_ascii "
+Eval vm_compute in ("<<<M2169>>>" ++ check (runes_of_ascii "MetaData BodyLength
+{ int8 Foo
+, string
+    MetaDataX , float zchar ,pack options1
+,asx string_, }
+packet u8x {Foo@lengthOf(")).
+Eval vm_compute in ("<<<M336>>>" ++ check (runes_of_ascii "options	{// 50% %s
+lengthOf = f64 pack= ""\n"" ; packetx =""{,}"" ;  MetaDataX =
+    false	; // 50% %s
+} // trailing space ")).
+Eval vm_compute in ("<<<M1920>>>" ++ check (runes_of_ascii "packet o {
+    roots `it's`
+// trailing space 
+//x
+, char[ 42
+    @x ]  A, // " ++ [27880; 37322]%N ++ runes_of_ascii "
+f64
+repeatCount
+    `crlf
+line`
+,}")).
+Eval vm_compute in ("<<<M794>>>" ++ check (runes_of_ascii "MetaData metadata{ stringy Header  , } root packet T { } packet
+matchKey { repeat string_ // 50% %s
+x_y_z
+    , }")).
+Eval vm_compute in ("<<<M1884>>>" ++ check (runes_of_ascii "packet o {
+    roots `it's`
+// trailing space 
+//x
+, char[ 42
+    ]  A, // " ++ [27880; 37322]%N ++ runes_of_ascii "
+repeatCount
+f64
+    `crlf
+line`
+,}")).
+Eval vm_compute in ("<<<M4469>>>" ++ check (runes_of_ascii "
 MetaData
 
-    o
-{  // c
-    }")).
-Eval vm_compute in ("<<<M993>>>" ++ check (runes_of_ascii "packet A {
- u8 x `d" ++ [5760]%N ++ runes_of_ascii "`, // c" ++ [5760]%N ++ runes_of_ascii "
-}")).
-Eval vm_compute in ("<<<M942>>>" ++ check (runes_of_ascii "packet A {
-    u8 x `x
-`,
-}")).
-Eval vm_compute in ("<<<M1853>>>" ++ check (runes_of_ascii "packet u8x {
-    //	t
-}")).
-Eval vm_compute in ("<<<M1388>>>" ++ check (runes_of_ascii "MetaData o {
+    Foo{ 
+zchar[0
+	]
+
+    matchKey 
+,
+
+    }options 
+
 // c
-}")).
-Eval vm_compute in ("<<<M1034>>>" ++ check (runes_of_ascii "packet A {
-}// c 	")).
-Eval vm_compute in ("<<<M2127>>>" ++ check (runes_of_ascii "options
-{
+	{
+	lengthOf = i32 
+u = 00  ;
     }
 ")).
-Eval vm_compute in ("<<<M1683>>>" ++ check (runes_of_ascii "
+Eval vm_compute in ("<<<M2292>>>" ++ check (runes_of_ascii "options
+    {
+x_y_z// " ++ [27880; 37322]%N ++ runes_of_ascii "
+= 10 ; }
+packet body {
+    @calculatedFrom(
+// trailing space 
+// " ++ [27880; 37322]%N ++ runes_of_ascii "
+""1""
+)	match T as")).
+Eval vm_compute in ("<<<M3057>>>" ++ check (runes_of_ascii "packet A {
+    Inner {
+        u8 x `tab
+	x`,
+        Deep {
+            u8 y `tab
+	x`,
+        },
+    },
+}")).
+Eval vm_compute in ("<<<M3068>>>" ++ check (runes_of_ascii "packet A {
+    u16 len @lengthOf(body) `%`,
+    u32 crc @calculatedFrom(""CRC32"") `%`,
+    string body,
+}")).
+Eval vm_compute in ("<<<M2963>>>" ++ check (runes_of_ascii "packet A {
+  match k as n {
+    [""a"", ""bb"", ""c c"", ""d"", ""e"", ""f"", ""g"", ""h"", ""i""] : B
+    2 : C
+  },
+}")).
+Eval vm_compute in ("<<<M4135>>>" ++ check (runes_of_ascii "
+
+  MetaData
+u
+    {  char[ 255 ] 
+string_ ,
+} packet
+    A { } root packet asx  { 	 //	t
+    }
+
+")).
+Eval vm_compute in ("<<<M254>>>" ++ check (runes_of_ascii "
+MetaData i8i8 { char[]	Header
+    `// not a comment`  ,u8 roots `
+` , int64 T,	} options { }
+")).
+Eval vm_compute in ("<<<M1364>>>" ++ check (runes_of_ascii "
+packet Packet { @calculatedFrom( ""\" ++ [233]%N ++ runes_of_ascii """) @tag( 42
+)@calculatedFrom(	""\n"" ) a1`{ , }` ,
+    }
+")).
+Eval vm_compute in ("<<<M1483>>>" ++ check (runes_of_ascii "packet
+T
+{ match repeatCount as	calculatedFrom
+{ [65535 ]	: As	,
+} } ,}
+// trailing space 
+")).
+Eval vm_compute in ("<<<M2190>>>" ++ check (runes_of_ascii "MetaData BodyLength
+{ int8 Foo
+, string
+    MetaDataX , float zchar ,pack options1
+,asx str")).
+Eval vm_compute in ("<<<M1771>>>" ++ check (runes_of_ascii "options{  lengthOf =//x
+i16;
+    BodyLength = 0 ; pack
+= false false;
+    A = char[ 3 ] }")).
+Eval vm_compute in ("<<<M3958>>>" ++ check (runes_of_ascii "packet A {
+    match k as n {
+        [1, ""bb"", 007, ""d"", 5] : B,
+        2 : C,
+    },
+}")).
+Eval vm_compute in ("<<<M3202>>>" ++ check (runes_of_ascii "packet A { match k as n // a
+ { // b
+ 1 // c
+ : // d
+ B // e
+ , // f
+ } // g
+ , // h
+ }")).
+Eval vm_compute in ("<<<M327>>>" ++ check (runes_of_ascii "
+packet
+//
+// " ++ [128512]%N ++ runes_of_ascii " emoji
+T {
+char[] repeatCount @lengthOf( a1 ) `u8 x,`
+, /// triple
+}
+")).
+Eval vm_compute in ("<<<M1742>>>" ++ check (runes_of_ascii "options{  lengthOf =//x
+i16;
+    = BodyLength 0 ; pack
+= false;
+    A = char[ 3 ] }")).
+Eval vm_compute in ("<<<M1775>>>" ++ check (runes_of_ascii "options{  lengthOf =//x
+i16;
+    BodyLength = 0 ; pack
+= false
+    A = char[ 3 ] }")).
+Eval vm_compute in ("<<<M1891>>>" ++ check (runes_of_ascii "packet o {
+    roots `it's`
+// trailing space 
+//x
+, char[ 42
+    ]  A, // " ++ [27880; 37322]%N ++ runes_of_ascii "
+f64")).
+Eval vm_compute in ("<<<M1432>>>" ++ check (runes_of_ascii "packet
+T
+{ match  as	calculatedFrom
+{ [65535 ]	: As	,
+} ,}
+// trailing space 
+")).
+Eval vm_compute in ("<<<M3265>>>" ++ check (runes_of_ascii "MetaData Foo { zchar[ 0 ] matchKey , } options { // c
+lengthOf = i32 u = 00 ; }")).
+Eval vm_compute in ("<<<M1743>>>" ++ check (runes_of_ascii "options{  lengthOf =//x
+i16;
+    u32 = 0 ; pack
+= false;
+    A = char[ 3 ] }")).
+Eval vm_compute in ("<<<M684>>>" ++ check (runes_of_ascii "root packet//
+repeatCount // trailing space 
+{_x@calculatedFrom( ""1"" ) ,
+}")).
+Eval vm_compute in ("<<<M3215>>>" ++ check (runes_of_ascii "packet A {
+    match k as n {
+        1 : B // c
+        , // d
+    },
+}")).
+Eval vm_compute in ("<<<M2972>>>" ++ check (runes_of_ascii "packet A { Inner { match k as n { [1,22,007,4,5,66,7,8,9] : B, }, }, }")).
+Eval vm_compute in ("<<<M632>>>" ++ check (runes_of_ascii "options { rootA = string ;
+} packet string_ {repeat a1 Packet , }
+")).
+Eval vm_compute in ("<<<M4308>>>" ++ check (runes_of_ascii "options {
+    Pad = char[7];
+    asx = ""CRC32"";
+    a1 = string;
+}")).
+Eval vm_compute in ("<<<M2759>>>" ++ check (runes_of_ascii "as @rightPad @rightPad match { uint8 string int32 zchar[ `a\` ]")).
+Eval vm_compute in ("<<<M3034>>>" ++ check (runes_of_ascii "MetaData M {
+    u8 x `a
+    b
+  c`,
+    T t `a
+    b
+  c`,
+}")).
+Eval vm_compute in ("<<<M987>>>" ++ check (runes_of_ascii "// " ++ [27880; 37322]%N ++ runes_of_ascii "
+packet len
+    {
+repeat
+metadata uint8x
+`say ""hi""` ,}")).
+Eval vm_compute in ("<<<M238>>>" ++ check (runes_of_ascii "root packet calculatedFrom
+{}	packet
+u
+    { u64  len
+, }
+")).
+Eval vm_compute in ("<<<M4013>>>" ++ check (runes_of_ascii "/// triple
+      options
+
+{
+BodyLength =
+    007 ;
+}
+")).
+Eval vm_compute in ("<<<M2866>>>" ++ check (runes_of_ascii ") ; zchar[ MetaData } match = int32 repeat char[] = (")).
+Eval vm_compute in ("<<<M402>>>" ++ check (runes_of_ascii "MetaData
+    zchar { zchar[ //x
+007 ] asx
+,
+    }")).
+Eval vm_compute in ("<<<M2591>>>" ++ check (runes_of_ascii "packet A { char[] x @calculatedFrom(""c"") `d`, }")).
+Eval vm_compute in ("<<<M3865>>>" ++ check (runes_of_ascii "packet A {
+    u8 x,// a
+    // b
+    u8 y,
+}")).
+Eval vm_compute in ("<<<M3398>>>" ++ check (runes_of_ascii "root  packet P
+	{
+    string
+s ,
+
+    }
+
+")).
+Eval vm_compute in ("<<<M3726>>>" ++ check (runes_of_ascii "
+options	// c
+    	{ 
+u8x
+    = false }
+")).
+Eval vm_compute in ("<<<M2821>>>" ++ check (runes_of_ascii "8!#u9sZX(:@MQWu3Ps>z""[<H>6@7M*]R*[1m;4X")).
+Eval vm_compute in ("<<<M2662>>>" ++ check (runes_of_ascii "MetaData M { match k as n { 1 : B }, }")).
+Eval vm_compute in ("<<<M1003>>>" ++ check (runes_of_ascii "packet
+    u8x
+//	t
+// 50% %s
+{ } 	 ")).
+Eval vm_compute in ("<<<M886>>>" ++ check (runes_of_ascii "  options
+    {
+// @lengthOf(
+//
+}
+")).
+Eval vm_compute in ("<<<M2625>>>" ++ check (runes_of_ascii "packet A { match k as n { 1 B }, }")).
+Eval vm_compute in ("<<<M1960>>>" ++ check (runes_of_ascii "
+packet leftPad {
+@leftPad( '0'")).
+Eval vm_compute in ("<<<M2758>>>" ++ check (runes_of_ascii "qUww<.tCKaU>#LIrC'v5KCXA`R-%g&=")).
+Eval vm_compute in ("<<<M3134>>>" ++ check (runes_of_ascii "packet A {
+ u8 x `d" ++ [8233]%N ++ runes_of_ascii "`, // c" ++ [8233]%N ++ runes_of_ascii "
+}")).
+Eval vm_compute in ("<<<M454>>>" ++ check (runes_of_ascii "packet Packet {/// triple
+}
+")).
+Eval vm_compute in ("<<<M2333>>>" ++ check (runes_of_ascii "options
+    {
+x_y_z// " ++ [27880; 37322]%N ++ runes_of_ascii "
+= ")).
+Eval vm_compute in ("<<<M3066>>>" ++ check (runes_of_ascii "packet A {
+    u8 x `%`,
+}")).
+Eval vm_compute in ("<<<M2706>>>" ++ check ([65533; 65533; 65533; 65533; 65533]%N ++ runes_of_ascii "h" ++ [65533; 65533]%N ++ runes_of_ascii "%" ++ [20; 15; 65533; 65533]%N ++ runes_of_ascii "x" ++ [65533; 65533; 23]%N ++ runes_of_ascii "``?" ++ [65533; 65533; 1; 65533]%N)).
+Eval vm_compute in ("<<<M723>>>" ++ check (runes_of_ascii " // packet A { u8 x, }")).
+Eval vm_compute in ("<<<M3610>>>" ++ check (runes_of_ascii "// `tick` ""quote"" 'q'")).
+Eval vm_compute in ("<<<M2572>>>" ++ check (runes_of_ascii "packet A { repeat }")).
+Eval vm_compute in ("<<<M2848>>>" ++ check (runes_of_ascii "Sq]fX""YE68*gwilIN=")).
+Eval vm_compute in ("<<<M3172>>>" ++ check (runes_of_ascii "packet A {
+}
 // c" ++ [6158]%N)).
-Eval vm_compute in ("<<<M2100>>>" ++ check (runes_of_ascii "// c")).
+Eval vm_compute in ("<<<M3125>>>" ++ check (runes_of_ascii "packet A {
+}// c" ++ [8232]%N)).
+Eval vm_compute in ("<<<M83>>>" ++ check (runes_of_ascii "
+packet tag  {}")).
+Eval vm_compute in ("<<<M907>>>" ++ check (runes_of_ascii "
+options
+{ }
+")).
+Eval vm_compute in ("<<<M2663>>>" ++ check (runes_of_ascii "options { }")).
+Eval vm_compute in ("<<<M2845>>>" ++ check (runes_of_ascii "options {")).
+Eval vm_compute in ("<<<M3850>>>" ++ check (runes_of_ascii "  // c" ++ [6158]%N)).
+Eval vm_compute in ("<<<M2439>>>" ++ check (runes_of_ascii "charz")).
+Eval vm_compute in ("<<<M3141>>>" ++ check (runes_of_ascii "// c" ++ [8287]%N)).
+Eval vm_compute in ("<<<M4457>>>" ++ check (runes_of_ascii "// c")).
+Eval vm_compute in ("<<<M2681>>>" ++ check (runes_of_ascii "{ }")).
+Eval vm_compute in ("<<<M2484>>>" ++ check (runes_of_ascii "'")).
